@@ -2,695 +2,8 @@
    construct, by induction on the fuel. *)
 From Coq Require Import QArith.
 From HclV Require Import Base.Prelude Cty.Values Cty.Convert Cty.Ops Eval.Impl
-     Eval.MarksNI Eval.MarksNI_Ops Eval.MarksNI_Index Eval.MarksNI_Funcs.
+     Eval.MarksNI Eval.MarksNI_Ops Eval.MarksNI_Index Eval.MarksNI_Funcs Eval.MarksNI_Steps.
 Open Scope Z_scope.
-
-Definition is_sc (o : binop) : bool := match o with OpOr | OpAnd => true | _ => false end.
-
-Ltac bad K :=
-  first [ unclean K
-        | apply clean_app in K; destruct K as [_ K]; unclean K
-        | apply clean_app in K; destruct K as [_ K]; apply clean_app in K; destruct K as [_ K]; unclean K ].
-
-(* Operation.ShortCircuit as a function: value and which side's diagnostics are returned *)
-Definition tru (v : val) : bool := match v with VBool true => true | _ => false end.
-Definition sc_val (op : binop) (lu ru : val) (lerr : bool) : option (val * bool) :=
-  match op with
-  | OpOr | OpAnd =>
-      let fls (v : val) := negb (tru v) in
-      let lk := is_known lu in let rk := is_known ru in
-      if negb lk && negb rk then
-        (if negb lerr then Some (unk_bool_nn, true) else None)
-      else
-      match op with
-      | OpOr =>
-          if lk && tru lu then Some (VBool true, true)
-          else if rk && tru ru then Some (VBool true, false)
-          else if negb lk && fls ru then Some (unk_bool_nn, true)
-          else if negb rk && fls lu then Some (unk_bool_nn, false)
-          else None
-      | _ =>
-          if lk && fls lu then Some (VBool false, true)
-          else if rk && fls ru then Some (VBool false, false)
-          else if negb lk && tru ru then Some (unk_bool_nn, true)
-          else if negb rk && tru lu then Some (unk_bool_nn, false)
-          else None
-      end
-  | _ => None
-  end.
-
-Lemma leq_known_tru m a b : leq m a b -> is_mark a = false -> is_known a = is_known b /\ tru a = tru b.
-Proof.
-  intros H Hm. leq_heads H; try discriminate Hm; try (injection H; intros; subst); split; reflexivity.
-Qed.
-
-Lemma sc_val_leq m op l1 l2 r1 r2 b :
-  leq m l1 l2 -> leq m r1 r2 -> is_mark l1 = false -> is_mark r1 = false ->
-  sc_val op l1 r1 b = sc_val op l2 r2 b.
-Proof.
-  intros Hl Hr Ml Mr. destruct (leq_known_tru _ _ _ Hl Ml) as [A B]. destruct (leq_known_tru _ _ _ Hr Mr) as [C D].
-  unfold sc_val. rewrite A, B, C, D. reflexivity.
-Qed.
-
-Definition bin_tail (op : binop) (lu ru : val) (mk : marks) (lds rds : list diag) : val * list diag :=
-  match option_map (fun p : val * bool => (fst p, if snd p then lds else rds)) (sc_val op lu ru (has_errors lds)) with
-  | Some (v, ds) => (with_marks v mk, ds)
-  | None =>
-      let ds := lds ++ rds in
-      if has_errors ds then (with_marks (VUnk (binop_type op) rf_none) mk, ds)
-      else match call_binop op lu ru with
-           | OOk res => (with_marks res mk, ds)
-           | OErr _ => (VUnk (binop_type op) rf_none, ds ++ [derr S_OperationFailed []])
-           | OUnsupported => (VUnk (binop_type op) rf_none, ds ++ [dunsupported])
-           end
-  end.
-
-Lemma bin_tail_marked op lu ru mk lds rds v ds :
-  bin_tail op lu ru mk lds rds = (v, ds) -> clean ds -> exists x, v = with_marks x mk.
-Proof.
-  unfold bin_tail. intros E K.
-  destruct (option_map _ _) as [[sv sd]|].
-  - injection E as <- _. eauto.
-  - destruct (has_errors (lds ++ rds)); [injection E as <- _; eauto|].
-    destruct (call_binop op lu ru); injection E as <- <-; eauto; exfalso; bad K.
-Qed.
-
-Lemma eval_bin_unfold idx f c a op l r :
-  eval_with idx (S f) c a (EBin op l r) =
-  let '(glv, lds) := eval_with idx f c a l in
-  let lc := conv glv (binop_param op) in
-  let ds1 := match lc with CErr ce => [derr S_InvalidOperand [FConv ce]] | CUnsupported => [dunsupported] | _ => [] end in
-  let '(grv, rds) := eval_with idx f c a r in
-  let rc := conv grv (binop_param op) in
-  let ds2 := ds1 ++ match rc with CErr ce => [derr S_InvalidOperand [FConv ce]] | CUnsupported => [dunsupported] | _ => [] end in
-  if has_unsupported lds || has_unsupported rds then (dyn_val, [dunsupported]) else
-  match lc, rc with
-  | COk lv, COk rv =>
-      let '(lu, lm) := unmark lv in
-      let '(ru, rm) := unmark rv in
-      bin_tail op lu ru (marks_union lm rm) lds rds
-  | _, _ => (VUnk (binop_type op) rf_none, ds2 ++ lds ++ rds)
-  end.
-Proof.
-  cbn [eval_with]. destruct (eval_with idx f c a l) as [glv lds]. destruct (eval_with idx f c a r) as [grv rds].
-  cbv zeta. destruct (has_unsupported lds || has_unsupported rds); [reflexivity|].
-  destruct (conv glv (binop_param op)); try reflexivity.
-  destruct (conv grv (binop_param op)); try reflexivity.
-  destruct (unmark v) as [lu lm]. destruct (unmark v0) as [ru rm].
-  unfold bin_tail, sc_val, tru.
-  destruct op; try reflexivity; cbv zeta;
-    repeat match goal with |- context [if ?b then _ else _] => destruct b end; reflexivity.
-Qed.
-
-Definition tmpl_step (ev : expr -> val * list diag) (st : list Z * bool * marks * list diag) (p : expr) :=
-  let '(buf, known, mk, ds) := st in
-  let '(pv, pds) := ev p in
-  let ds := ds ++ pds in
-  if is_null pv then (buf, known, mk, ds ++ [derr S_InvalidTemplateInterp []])
-  else
-  let '(pu, pm) := unmark pv in
-  let mk := marks_union mk pm in
-  if negb (is_known pv) then (buf, false, mk, ds)
-  else match conv pu TStr with
-       | CUnsupported => (buf, known, mk, ds ++ [dunsupported])
-       | CErr ce => (buf, known, mk, ds ++ [derr S_InvalidTemplateInterp [FConv ce]])
-       | COk (VStr s) => if known && negb (has_errors ds) then (buf ++ s, known, mk, ds) else (buf, known, mk, ds)
-       | COk _ => (buf, known, mk, ds ++ [dunsupported])
-       end.
-
-Definition tmpl_ret (buf : list Z) (known : bool) (ds : list diag) : val :=
-  if negb known then
-    (if negb (has_errors ds) && negb (str_eqb buf [])
-     then VUnk TStr (RExact (mkRefn true (firstn 128 buf) None None 0 None))
-     else VUnk TStr rf_notnull)
-  else VStr buf.
-
-Lemma eval_tmpl_unfold idx f c a parts :
-  eval_with idx (S f) c a (ETmpl parts) =
-  let '(buf, known, mk, ds) := fold_left (tmpl_step (eval_with idx f c a)) parts ([], true, [], []) in
-  (with_marks (tmpl_ret buf known ds) mk, ds).
-Proof. reflexivity. Qed.
-
-(* diagnostics only grow along a fold *)
-Lemma fold_clean_mono {S X} (step : S -> X -> S) (dsf : S -> list diag) :
-  (forall st x, exists e, dsf (step st x) = dsf st ++ e) ->
-  forall l st, clean (dsf (fold_left step l st)) -> clean (dsf st).
-Proof.
-  intros Hs. induction l as [|x r IH]; intros st K; cbn [fold_left] in K; [exact K|].
-  apply IH in K. destruct (Hs st x) as [e He]. rewrite He in K. apply clean_app in K as [K _]. exact K.
-Qed.
-
-Lemma is_known_hd v : is_known v = hd_known (fst (unmark v)).
-Proof. destruct v; reflexivity. Qed.
-Lemma is_null_hd v : is_null v = hd_null (fst (unmark v)).
-Proof. destruct v; reflexivity. Qed.
-Lemma leq_hd m a b : leq m a b -> is_mark a = false -> hd_known a = hd_known b /\ hd_null a = hd_null b.
-Proof. intros H Hm. leq_heads H; try discriminate Hm; split; reflexivity. Qed.
-
-Lemma tmpl_step_ds2 ev st p : exists x, snd (tmpl_step ev st p) = (snd st ++ snd (ev p)) ++ x.
-Proof.
-  destruct st as [[[buf known] mk] ds]. unfold tmpl_step. destruct (ev p) as [pv pds]. cbn [snd].
-  repeat match goal with
-         | |- context [match ?y with _ => _ end] => destruct y
-         | |- context [if ?y then _ else _] => destruct y
-         end; cbn [snd]; first [exists []; rewrite app_nil_r; reflexivity | eexists; reflexivity].
-Qed.
-Lemma tmpl_step_ds ev st p : exists x, snd (tmpl_step ev st p) = snd st ++ x.
-Proof. destruct (tmpl_step_ds2 ev st p) as [x H]. rewrite H, <- app_assoc. eexists; reflexivity. Qed.
-
-(* ---- template join ---------------------------------------------------------------------------- *)
-Definition join_state := ((list Z * marks * list diag) + (val * list diag))%type.
-Definition join_step (st : join_state) (v : val) : join_state :=
-  match st with
-  | inr r => inr r
-  | inl (buf, am, ds) =>
-      if is_null v then inl (buf, am, ds ++ [derr S_InvalidTemplateInterp []])
-      else if ty_eqb (type_of v) TDyn then inr (with_same_marks (with_marks (VUnk TStr rf_none) am) v, ds)
-      else match conv v TStr with
-           | CUnsupported => inl (buf, am, ds ++ [dunsupported])
-           | CErr ce => inl (buf, am, ds ++ [derr S_InvalidTemplateInterp [FConv ce]])
-           | COk sv =>
-               if negb (is_known v) then inr (with_same_marks (with_marks (VUnk TStr rf_none) am) v, ds)
-               else let '(su, sm) := unmark sv in
-                    match su with
-                    | VStr s => inl (buf ++ s, marks_union am sm, ds)
-                    | _ => inl (buf, am, ds ++ [dunsupported])
-                    end
-           end
-  end.
-Definition join_fin (st : join_state) : val * list diag :=
-  match st with
-  | inr r => r
-  | inl (buf, am, ds) => (with_marks (VStr buf) am, ds)
-  end.
-
-Lemma eval_join_unfold idx f c a te :
-  eval_with idx (S f) c a (EJoin te) =
-  let '(tv, ds) := eval_with idx f c a te in
-  if ty_eqb (type_of tv) TDyn then (with_same_marks (VUnk TStr rf_none) tv, ds)
-  else if negb (is_known tv) then (with_same_marks (VUnk TStr rf_none) tv, ds)
-  else
-  let '(tu, tm) := unmark tv in
-  match tu with
-  | VTuple vs => join_fin (fold_left join_step vs (inl ([], tm, ds)))
-  | _ => (dyn_val, ds ++ [dunsupported])
-  end.
-Proof. reflexivity. Qed.
-
-Definition join_ds (st : join_state) : list diag :=
-  match st with inl (_, _, ds) => ds | inr (_, ds) => ds end.
-Lemma join_step_ds st v : exists x, join_ds (join_step st v) = join_ds st ++ x.
-Proof.
-  destruct st as [[[buf am] ds]|[r ds]]; cbn [join_step join_ds]; [|exists []; rewrite app_nil_r; reflexivity].
-  repeat match goal with
-         | |- context [match ?y with _ => _ end] => destruct y
-         | |- context [if ?y then _ else _] => destruct y
-         end; cbn [join_ds]; first [exists []; rewrite app_nil_r; reflexivity | eexists; reflexivity].
-Qed.
-Lemma join_fin_ds st : snd (join_fin st) = join_ds st.
-Proof. destruct st as [[[buf am] ds]|[r ds]]; reflexivity. Qed.
-
-Definition join_tainted (m : Z) (st : join_state) : bool :=
-  match st with inl (_, am, _) => mark_mem m am | inr (r, _) => is_star m r end.
-
-Lemma conv_star m v want r : is_star m v = true -> conv v want = COk r -> is_star m r = true.
-Proof.
-  destruct v; cbn [is_star]; try discriminate. intros Hs E. unfold conv in E. cbn [val_size] in E.
-  rewrite convert_mark in E. destruct (convert _ v want); try discriminate E. injection E as <-.
-  apply with_marks_star, Hs.
-Qed.
-
-Lemma join_step_taint m st v :
-  join_tainted m st = true \/ (is_star m v = true /\ exists x, st = inl x) ->
-  clean (join_ds (join_step st v)) -> join_tainted m (join_step st v) = true.
-Proof.
-  intros H K. destruct st as [[[buf am] ds]|[r ds]]; cbn [join_step join_tainted join_ds] in *.
-  2:{ destruct H as [H|[_ [x H]]]; [exact H|discriminate H]. }
-  assert (H' : mark_mem m am = true \/ is_star m v = true) by (destruct H as [H|[H _]]; auto). clear H.
-  destruct (is_null v); [cbn [join_ds] in K; bad K|].
-  destruct (ty_eqb (type_of v) TDyn).
-  { cbn [join_tainted]. unfold with_same_marks. rewrite !is_star_with_marks.
-    destruct H' as [H|H]; [rewrite H|rewrite (marks_of_star _ _ H)]; rewrite ?orb_true_r; reflexivity. }
-  destruct (conv v TStr) as [sv| |] eqn:C; try (cbn [join_ds] in K; bad K).
-  destruct (negb (is_known v)).
-  { cbn [join_tainted]. unfold with_same_marks. rewrite !is_star_with_marks.
-    destruct H' as [H|H]; [rewrite H|rewrite (marks_of_star _ _ H)]; rewrite ?orb_true_r; reflexivity. }
-  destruct (unmark sv) as [su sm] eqn:U.
-  destruct su; try (cbn [join_ds] in K; bad K).
-  cbn [join_tainted]. rewrite mark_mem_union. destruct H' as [H|H]; [rewrite H; reflexivity|].
-  pose proof (conv_star _ _ _ _ H C) as S. apply marks_of_star in S. unfold marks_of in S. rewrite U in S.
-  cbn [snd] in S. rewrite S. apply orb_true_r.
-Qed.
-
-Lemma join_fold_taint m vs : forall st,
-  join_tainted m st = true -> clean (join_ds (fold_left join_step vs st)) ->
-  join_tainted m (fold_left join_step vs st) = true.
-Proof.
-  induction vs as [|v r IH]; intros st H K; cbn [fold_left] in *; [exact H|].
-  apply IH; [|exact K]. apply join_step_taint; [left; exact H|].
-  eapply (fold_clean_mono _ join_ds); [|exact K]. intros; apply join_step_ds.
-Qed.
-
-Lemma join_fin_star m st : join_tainted m st = true -> is_star m (fst (join_fin st)) = true.
-Proof.
-  destruct st as [[[buf am] ds]|[r ds]]; cbn [join_tainted join_fin fst]; [|auto].
-  intro H. apply with_marks_star, H.
-Qed.
-
-Lemma type_of_unmark v : type_of v = type_of (fst (unmark v)).
-Proof. destruct v; reflexivity. Qed.
-
-Lemma leq_nostar_facts m v1 v2 :
-  leq m v1 v2 -> is_star m v1 = false -> wf v1 ->
-  is_null v1 = is_null v2 /\ is_known v1 = is_known v2 /\
-  ty_eqb (type_of v1) TDyn = ty_eqb (type_of v2) TDyn.
-Proof.
-  intros H S W. rewrite !is_null_hd, !is_known_hd, (type_of_unmark v1), (type_of_unmark v2).
-  destruct (unmark_leq _ _ _ H) as [[A _]|(_ & _ & C)].
-  - pose proof (marks_of_nostar _ _ S) as X. unfold marks_of in X. congruence.
-  - destruct (wf_unmark _ W) as [N _]. revert C N.
-    generalize (fst (unmark v1)) (fst (unmark v2)). intros u1 u2 C N. change (leq m u1 u2) in C.
-    leq_heads C; try discriminate N; try (injection C; intros; subst); repeat split; reflexivity.
-Qed.
-
-Definition join_rel (m : Z) (st1 st2 : join_state) : Prop :=
-  (join_tainted m st1 = true /\ join_tainted m st2 = true) \/
-  match st1, st2 with
-  | inl (b1, am1, _), inl (b2, am2, _) => b1 = b2 /\ am1 = am2
-  | inr (r1, _), inr (r2, _) => leq m r1 r2
-  | _, _ => False
-  end.
-
-Lemma join_step_rel m st1 st2 v1 v2 :
-  leq m v1 v2 -> wf v1 -> join_rel m st1 st2 ->
-  clean (join_ds (join_step st1 v1)) -> clean (join_ds (join_step st2 v2)) ->
-  join_rel m (join_step st1 v1) (join_step st2 v2).
-Proof.
-  intros Lv W [[T1 T2]|R] K1 K2.
-  { left. split; apply join_step_taint; auto. }
-  destruct st1 as [[[b1 am1] d1]|[r1 d1]], st2 as [[[b2 am2] d2]|[r2 d2]]; try contradiction.
-  2:{ right. exact R. }
-  destruct R as [-> ->].
-  destruct (is_star m v1) eqn:S.
-  { left. split; apply join_step_taint; try assumption; right; (split; [|eexists; reflexivity]); [exact S|].
-    rewrite <- (leq_is_star _ _ _ Lv). exact S. }
-  destruct (leq_nostar_facts _ _ _ Lv S W) as (Fn & Fk & Ft).
-  cbn [join_step] in *. rewrite <- Fn, <- Ft, <- Fk in *.
-  destruct (is_null v1); [cbn [join_ds] in K1; bad K1|].
-  destruct (ty_eqb (type_of v1) TDyn).
-  { right. apply with_same_marks_leq; [apply leq_refl|exact Lv]. }
-  destruct (conv v1 TStr) as [s1| |] eqn:C1; try (cbn [join_ds] in K1; bad K1).
-  destruct (conv v2 TStr) as [s2| |] eqn:C2; try (cbn [join_ds] in K2; bad K2).
-  destruct (negb (is_known v1)).
-  { right. apply with_same_marks_leq; [apply leq_refl|exact Lv]. }
-  assert (Ls : leq m s1 s2) by (eapply (conv_leq_pd m TStr); [reflexivity|exact Lv|exact C1|exact C2]).
-  destruct (unmark_rel _ _ _ Ls) as [Ms Xs].
-  destruct (unmark s1) as [u1 sm1]. destruct (unmark s2) as [u2 sm2]. cbn [fst snd] in *.
-  destruct u1; try (cbn [join_ds] in K1; bad K1). destruct u2; try (cbn [join_ds] in K2; bad K2).
-  destruct (mark_mem m sm1) eqn:Z.
-  - left. cbn [join_tainted]. rewrite !mark_mem_union, Z. destruct Ms as [[_ Q]|Q]; [rewrite Q|rewrite <- Q, Z];
-      rewrite !orb_true_r; auto.
-  - right. destruct Ms as [[P _]|Q]; [congruence|]. subst sm2. specialize (Xs eq_refl).
-    unfold leq in Xs. cbn [erase] in Xs. injection Xs as ->. auto.
-Qed.
-
-Lemma join_fold_rel m vs1 vs2 :
-  Forall2 (leq m) vs1 vs2 -> Forall wf vs1 ->
-  forall st1 st2, join_rel m st1 st2 ->
-  clean (join_ds (fold_left join_step vs1 st1)) -> clean (join_ds (fold_left join_step vs2 st2)) ->
-  join_rel m (fold_left join_step vs1 st1) (fold_left join_step vs2 st2).
-Proof.
-  induction 1 as [|v1 v2 r1 r2 Lv _ IH]; intros Wf st1 st2 R K1 K2; cbn [fold_left] in *; [exact R|].
-  inversion Wf as [|? ? Wv Wr]; subst.
-  apply IH; [exact Wr| |exact K1|exact K2].
-  apply join_step_rel; try assumption.
-  - eapply (fold_clean_mono _ join_ds); [|exact K1]. intros; apply join_step_ds.
-  - eapply (fold_clean_mono _ join_ds); [|exact K2]. intros; apply join_step_ds.
-Qed.
-
-Lemma join_fin_rel m st1 st2 : join_rel m st1 st2 -> leq m (fst (join_fin st1)) (fst (join_fin st2)).
-Proof.
-  intros [[T1 T2]|R].
-  - apply stars_leq; apply join_fin_star; assumption.
-  - destruct st1 as [[[b1 am1] d1]|[r1 d1]], st2 as [[[b2 am2] d2]|[r2 d2]]; try contradiction; cbn [join_fin fst].
-    + destruct R as [-> ->]. apply leq_refl.
-    + exact R.
-Qed.
-
-(* ---- object constructor ---------------------------------------------------------------------- *)
-Definition obj_state := (list (list Z * val) * list marks * bool * list diag)%type.
-Definition obj_step (ev : expr -> val * list diag) (st : obj_state) (it : expr * expr) : obj_state :=
-  let '(vals, mks, known, ds) := st in
-  let '(k, kds) := ev (fst it) in
-  let '(v, vds) := ev (snd it) in
-  let ds := ds ++ kds ++ vds in
-  if has_errors kds then (vals, mks, false, ds)
-  else if is_null k then (vals, mks, false, ds ++ [derr S_NullKey []])
-  else
-  let '(ku, km) := unmark k in
-  let mks := mks ++ [km] in
-  match conv ku TStr with
-  | CUnsupported => (vals, mks, false, ds ++ [dunsupported])
-  | CErr ce => (vals, mks, false, ds ++ [derr S_IncorrectKeyType [FConv ce]])
-  | COk ks =>
-      match ks with
-      | VStr s => (assoc_set s v vals, mks, known, ds)
-      | _ => (vals, mks, false, ds)
-      end
-  end.
-
-Lemma eval_obj_unfold idx f c a items :
-  eval_with idx (S f) c a (EObj items) =
-  let '(vals, mks, known, ds) := fold_left (obj_step (eval_with idx f c a)) items ([], [], true, []) in
-  if negb known then (with_marks dyn_val (marks_unions mks), ds)
-  else (with_marks (VObj vals) (marks_unions mks), ds).
-Proof. reflexivity. Qed.
-
-Lemma obj_step_ds2 ev st it :
-  exists x, snd (obj_step ev st it) = (snd st ++ snd (ev (fst it)) ++ snd (ev (snd it))) ++ x.
-Proof.
-  destruct st as [[[vals mks] known] ds]. unfold obj_step.
-  destruct (ev (fst it)) as [k kds]. destruct (ev (snd it)) as [v vds]. cbn [snd].
-  repeat match goal with
-         | |- context [match ?y with _ => _ end] => destruct y
-         | |- context [if ?y then _ else _] => destruct y
-         end; cbn [snd]; first [exists []; rewrite app_nil_r; reflexivity | eexists; reflexivity].
-Qed.
-Lemma obj_step_ds ev st it : exists x, snd (obj_step ev st it) = snd st ++ x.
-Proof. destruct (obj_step_ds2 ev st it) as [x H]. rewrite H, <- !app_assoc. eexists; reflexivity. Qed.
-
-Definition obj_mks (st : obj_state) : list marks := snd (fst (fst st)).
-Lemma obj_step_taint m ev st it :
-  existsb (mark_mem m) (obj_mks st) = true -> existsb (mark_mem m) (obj_mks (obj_step ev st it)) = true.
-Proof.
-  destruct st as [[[vals mks] known] ds]. unfold obj_step, obj_mks. cbn [fst snd]. intro H.
-  destruct (ev (fst it)) as [k kds]. destruct (ev (snd it)) as [v vds].
-  repeat match goal with
-         | |- context [match ?y with _ => _ end] => destruct y
-         | |- context [if ?y then _ else _] => destruct y
-         end; cbn [fst snd]; rewrite ?existsb_app, H; reflexivity.
-Qed.
-
-(* ---- function calls ---------------------------------------------------------------------------- *)
-Definition call_step (ev : expr -> val * list diag) (fnv : fn) (st : list val * list diag) (ia : nat * expr) :=
-  let '(vals, ds) := st in
-  let '(v, ads) := ev (snd ia) in
-  let ds := ds ++ ads in
-  match param_for fnv (fst ia) with
-  | None => (vals ++ [v], ds ++ [dunsupported])
-  | Some p =>
-      match conv v (p_ty p) with
-      | COk v' => (vals ++ [v'], ds)
-      | CErr ce => (vals ++ [v], ds ++ [derr S_InvalidFuncArg [FStr (p_name p) []; FConv ce]])
-      | CUnsupported => (vals ++ [v], ds ++ [dunsupported])
-      end
-  end.
-
-Definition call_tail (ev : expr -> val * list diag) (name : list Z) (fnv : fn) (args' : list expr) (ds0 : list diag) : val * list diag :=
-  let np := length (f_params fnv) in
-  if (length args' <? np)%nat then (dyn_val, [derr S_NotEnoughArgs [FStr name []]])
-  else if (match f_varparam fnv with None => true | Some _ => false end) && (np <? length args')%nat
-  then (dyn_val, [derr S_TooManyArgs [FStr name []]])
-  else
-  let '(argvals, ds) := fold_left (call_step ev fnv) (combine (seq 0 (length args')) args') ([], ds0) in
-  if has_errors ds then (dyn_val, ds)
-  else if has_unsupported ds then (dyn_val, ds)
-  else match fn_call fnv argvals with
-       | CallOk v => (v, ds)
-       | CallArgErr i => (dyn_val, ds ++ [derr S_InvalidFuncArg []])
-       | CallErr => (dyn_val, ds ++ [derr S_ErrorInCall [FStr name []]])
-       | CallUnsupported => (dyn_val, ds ++ [dunsupported])
-       end.
-
-Lemma eval_call_unfold idx f c a name args :
-  eval_with idx (S f) c a (ECall name args false) =
-  match lookup_fn c name false with
-  | (None, false) => (dyn_val, [derr S_FuncsNotAllowed []])
-  | (None, true) => (dyn_val, [derr S_UnknownFunc [FStr name []]])
-  | (Some fnv, _) => call_tail (eval_with idx f c a) name fnv args []
-  end.
-Proof. reflexivity. Qed.
-
-Lemma call_step_ds2 ev fnv st ia : exists x, snd (call_step ev fnv st ia) = (snd st ++ snd (ev (snd ia))) ++ x.
-Proof.
-  destruct st as [vals ds]. unfold call_step. destruct (ev (snd ia)) as [v ads]. cbn [snd].
-  repeat match goal with
-         | |- context [match ?y with _ => _ end] => destruct y
-         end; cbn [snd]; first [exists []; rewrite app_nil_r; reflexivity | eexists; reflexivity].
-Qed.
-Lemma call_step_ds ev fnv st ia : exists x, snd (call_step ev fnv st ia) = snd st ++ x.
-Proof. destruct (call_step_ds2 ev fnv st ia) as [x H]. rewrite H, <- !app_assoc. eexists; reflexivity. Qed.
-
-(* ---- conditional ------------------------------------------------------------------------------ *)
-Definition cond_uni (tv fv : val) : option (ty * bool * bool) + bool :=
-  if is_dyn_null tv then inl (Some (type_of fv, true, false))
-  else if is_dyn_null fv then inl (Some (type_of tv, false, true))
-  else if ty_eqb (type_of tv) TDyn || ty_eqb (type_of fv) TDyn then inl (Some (TDyn, false, false))
-  else match unify (type_of tv) (type_of fv) with
-       | UOk t => inl (Some (t, negb (ty_eqb (type_of tv) t), negb (ty_eqb (type_of fv) t)))
-       | UNone => inr false
-       | UUnsupported => inr true
-       end.
-
-(* observations of a branch value used by the unknown-condition path *)
-Record bobs := mkObs { o_null : bool; o_dnn : option bool; o_ty : ty;
-                       o_nlo : option (option (num * bool)); o_nhi : option (option (num * bool));
-                       o_llo : option Z; o_lhi : option (option Z) }.
-Definition obs_of (v : val) : bobs :=
-  mkObs (hd_null v) (definitely_not_null v) (type_of v) (num_lo v) (num_hi v) (len_lo v) (len_hi v).
-
-Definition cond_unk_obs (rt : ty) (t f : bobs) : val :=
-  let nn := match o_dnn t, o_dnn f with
-            | Some a, Some b => Some (a && b) | _, _ => None end in
-  if o_null t && o_null f then VNull rt else
-    match nn with
-    | None => VUnk rt RWild
-    | Some nnb =>
-      if ty_eqb (o_ty t) TNum && ty_eqb (o_ty f) TNum then
-        match o_nlo t, o_nlo f, o_nhi t, o_nhi f with
-        | Some tlo, Some flo, Some thi, Some fhi =>
-            let lo := match tlo, flo with
-                      | Some (a, ai), Some (b, bi) =>
-                          if num_ltb a b then Some (a, ai)
-                          else if num_eqb a b then Some (b, ai || bi) else Some (b, bi)
-                      | _, _ => None end in
-            let hi := match thi, fhi with
-                      | Some (a, ai), Some (b, bi) =>
-                          if num_ltb b a then Some (a, ai)
-                          else if num_eqb a b then Some (b, ai || bi) else Some (b, bi)
-                      | _, _ => None end in
-            let lo := match lo with Some (NInf false, _) => None | o => o end in
-            let hi := match hi with Some (NInf true, _) => None | o => o end in
-            finish_unknown TNum (mkRefn nnb [] lo hi 0 None)
-        | _, _, _, _ => VUnk TNum RWild
-        end
-      else if is_collection (o_ty t) && is_collection (o_ty f) && ty_eqb (o_ty t) (o_ty f) then
-        match o_llo t, o_llo f, o_lhi t, o_lhi f with
-        | Some tl, Some fl, Some th, Some fh =>
-            let lo := Z.min tl fl in
-            let hi := match th, fh with Some a, Some b => Some (Z.max a b) | _, _ => None end in
-            finish_unknown rt (mkRefn nnb [] None None lo hi)
-        | _, _, _, _ => VUnk rt RWild
-        end
-      else VUnk rt (RExact (mkRefn nnb [] None None 0 None))
-    end.
-
-Definition cond_pick (rt : ty) (mk : marks) (cds : list diag) (bv : val) (bds : list diag) (needconv : bool) : val * list diag :=
-  if needconv then
-    match conv bv rt with
-    | COk r => (with_marks r mk, cds ++ bds)
-    | CErr ce => (with_marks (VUnk rt rf_none) mk, cds ++ bds ++ [derr S_InconsistentCond [FConv ce]])
-    | CUnsupported => (dyn_val, cds ++ bds ++ [dunsupported])
-    end
-  else (with_marks bv mk, cds ++ bds).
-
-Definition cond_tail (rt : ty) (tconv fconv : bool) (cv : val) (cds : list diag)
-           (tv : val) (tds : list diag) (fv : val) (fds : list diag) : val * list diag :=
-  if is_null cv then (VUnk rt rf_none, cds ++ [derr S_NullCondition []])
-  else
-  let '(cu, cm) := unmark cv in
-  let '(tu, tm) := unmark tv in
-  let '(fu, fm) := unmark fv in
-  let mk := marks_unions [cm; tm; fm] in
-  if negb (is_known cu) then (with_marks (cond_unk_obs rt (obs_of tu) (obs_of fu)) mk, cds)
-  else
-  match conv cu TBool with
-  | CUnsupported => (VUnk rt rf_none, cds ++ [dunsupported])
-  | CErr _ => (VUnk rt rf_none, cds ++ [derr S_IncorrectCondType []])
-  | COk cb =>
-      match cb with
-      | VBool true => cond_pick rt mk cds tu tds tconv
-      | VBool false => cond_pick rt mk cds fu fds fconv
-      | _ => (dyn_val, cds ++ [dunsupported])
-      end
-  end.
-
-Lemma eval_cond_unfold idx f c a ce te fe :
-  eval_with idx (S f) c a (ECond ce te fe) =
-  let '(tv, tds) := eval_with idx f c a te in
-  let '(fv, fds) := eval_with idx f c a fe in
-  if has_unsupported tds || has_unsupported fds then (dyn_val, [dunsupported]) else
-  match cond_uni tv fv with
-  | inr true => (dyn_val, [dunsupported])
-  | inr false | inl None =>
-      (dyn_val, [derr S_InconsistentCond (if contains_marked tv || contains_marked fv then []
-                                          else [FTy (type_of tv); FTy (type_of fv)])])
-  | inl (Some (rt, tconv, fconv)) =>
-      let '(cv, cds) := eval_with idx f c a ce in
-      cond_tail rt tconv fconv cv cds tv tds fv fds
-  end.
-Proof.
-  unfold cond_tail.
-  cbn [eval_with]. destruct (eval_with idx f c a te) as [tv tds]. destruct (eval_with idx f c a fe) as [fv fds].
-  destruct (has_unsupported tds || has_unsupported fds); [reflexivity|].
-  fold (cond_uni tv fv). destruct (cond_uni tv fv) as [[[[rt tconv] fconv]|]|[|]]; try reflexivity.
-  destruct (eval_with idx f c a ce) as [cv cds]. destruct (is_null cv); [reflexivity|].
-  destruct (unmark cv) as [cu cm]. destruct (unmark tv) as [tu tm]. destruct (unmark fv) as [fu fm].
-  destruct (negb (is_known cu)); [|reflexivity].
-  unfold cond_unk_obs, obs_of. cbn [o_null o_dnn o_ty o_nlo o_nhi o_llo o_lhi].
-  destruct (hd_null tu && hd_null fu) eqn:Hn.
-  { destruct tu; try discriminate Hn; destruct fu; try discriminate Hn; reflexivity. }
-  assert (X : forall (A : Type) (a b : A), match tu, fu with VNull _, VNull _ => a | _, _ => b end = b).
-  { intros. destruct tu; try reflexivity; destruct fu; try reflexivity; discriminate Hn. }
-  rewrite X. clear X Hn.
-  repeat match goal with
-         | |- context [match ?y with _ => _ end] => destruct y eqn:?
-         | |- context [if ?y then _ else _] => destruct y eqn:?
-         end; reflexivity.
-Qed.
-
-Lemma obs_leq m a b :
-  leq m a b -> is_mark a = false -> type_of a = type_of b -> (forall t, type_of a <> TSet t) ->
-  obs_of a = obs_of b.
-Proof.
-  intros H N T NS. unfold obs_of. rewrite <- T.
-  leq_heads H; try discriminate N; try (injection H; intros; subst; reflexivity).
-  - injection H as -> H. apply map_erase_Forall2, Forall2_length in H.
-    cbn [hd_null definitely_not_null num_lo num_hi len_lo len_hi length_int]. rewrite H. reflexivity.
-  - exfalso. eapply NS. reflexivity.
-  - injection H as -> H. apply map_erase_kv_Forall2, Forall2_length in H.
-    cbn [hd_null definitely_not_null num_lo num_hi len_lo len_hi length_int]. rewrite H. reflexivity.
-  - injection H as H. apply map_erase_Forall2, Forall2_length in H.
-    cbn [hd_null definitely_not_null num_lo num_hi len_lo len_hi length_int]. rewrite H. reflexivity.
-  - injection H as H. apply map_erase_kv_Forall2, Forall2_length in H.
-    cbn [hd_null definitely_not_null num_lo num_hi len_lo len_hi length_int]. rewrite H. reflexivity.
-Qed.
-
-Lemma cond_pick_ds rt mk cds bv bds nc : exists x, snd (cond_pick rt mk cds bv bds nc) = cds ++ x.
-Proof.
-  unfold cond_pick. destruct nc; [destruct (conv bv rt)|]; cbn [snd]; eexists; reflexivity.
-Qed.
-Lemma cond_tail_ds rt tc fc cv cds tv tds fv fds :
-  exists x, snd (cond_tail rt tc fc cv cds tv tds fv fds) = cds ++ x.
-Proof.
-  unfold cond_tail. destruct (is_null cv); [eexists; reflexivity|].
-  destruct (unmark cv) as [cu cm]. destruct (unmark tv) as [tu tm]. destruct (unmark fv) as [fu fm].
-  destruct (negb (is_known cu)); [exists []; rewrite app_nil_r; reflexivity|].
-  destruct (conv cu TBool) as [cb| |]; try (eexists; reflexivity).
-  destruct cb; try (eexists; reflexivity). destruct b; apply cond_pick_ds.
-Qed.
-
-Lemma cond_pick_marked rt mk cds bv bds nc v ds :
-  cond_pick rt mk cds bv bds nc = (v, ds) -> clean ds -> exists x, v = with_marks x mk.
-Proof.
-  unfold cond_pick. intros E K. destruct nc; [destruct (conv bv rt)|]; injection E as <- <-; eauto;
-    exfalso; apply clean_app in K as [_ K]; bad K.
-Qed.
-Lemma cond_tail_marked rt tc fc cv cds tv tds fv fds v ds :
-  cond_tail rt tc fc cv cds tv tds fv fds = (v, ds) -> clean ds ->
-  exists x, v = with_marks x (marks_unions [marks_of cv; marks_of tv; marks_of fv]).
-Proof.
-  unfold cond_tail, marks_of. intros E K. destruct (is_null cv); [injection E as <- <-; bad K|].
-  destruct (unmark cv) as [cu cm]. destruct (unmark tv) as [tu tm]. destruct (unmark fv) as [fu fm]. cbn [snd].
-  destruct (negb (is_known cu)); [injection E as <- _; eauto|].
-  destruct (conv cu TBool) as [cb| |]; try (injection E as <- <-; bad K).
-  destruct cb; try (injection E as <- <-; bad K). destruct b; eapply cond_pick_marked; eassumption.
-Qed.
-
-Lemma cond_pick_leq m rt mk cds1 cds2 b1 b2 bd1 bd2 nc v1 v2 ds1 ds2 :
-  leq m b1 b2 -> (nc = true -> pd_ty rt = true \/ prim_head b1 = true) ->
-  cond_pick rt mk cds1 b1 bd1 nc = (v1, ds1) -> cond_pick rt mk cds2 b2 bd2 nc = (v2, ds2) ->
-  clean ds1 -> clean ds2 -> leq m v1 v2.
-Proof.
-  unfold cond_pick. intros L Hs E1 E2 K1 K2. destruct nc.
-  - destruct (conv b1 rt) as [r1| |] eqn:C1; try (injection E1 as <- <-; exfalso; apply clean_app in K1 as [_ K1]; bad K1).
-    destruct (conv b2 rt) as [r2| |] eqn:C2; try (injection E2 as <- <-; exfalso; apply clean_app in K2 as [_ K2]; bad K2).
-    injection E1 as <- _. injection E2 as <- _. apply with_marks_leq; [|apply marks_rel_refl].
-    destruct (Hs eq_refl) as [Hp|Hp].
-    + eapply conv_leq_pd; eassumption.
-    + assert (b1 = b2).
-      { apply (leq_prim_eq m); [exact L|]. destruct b1; try discriminate Hp; exact I. }
-      subst b2. rewrite C1 in C2. injection C2 as <-. apply leq_refl.
-  - injection E1 as <- _. injection E2 as <- _. apply with_marks_leq; [exact L|apply marks_rel_refl].
-Qed.
-
-Lemma cond_tail_leq m rt tc fc cv1 cv2 cds1 cds2 tv1 tv2 td1 td2 fv1 fv2 fd1 fd2 v1 v2 ds1 ds2 :
-  leq m cv1 cv2 -> leq m tv1 tv2 -> leq m fv1 fv2 ->
-  is_star m cv1 = false -> is_star m tv1 = false -> is_star m fv1 = false ->
-  wf cv1 -> wf tv1 -> wf fv1 ->
-  obs_of (fst (unmark tv1)) = obs_of (fst (unmark tv2)) ->
-  obs_of (fst (unmark fv1)) = obs_of (fst (unmark fv2)) ->
-  (tc = true -> pd_ty rt = true \/ prim_head (fst (unmark tv1)) = true) ->
-  (fc = true -> pd_ty rt = true \/ prim_head (fst (unmark fv1)) = true) ->
-  cond_tail rt tc fc cv1 cds1 tv1 td1 fv1 fd1 = (v1, ds1) ->
-  cond_tail rt tc fc cv2 cds2 tv2 td2 fv2 fd2 = (v2, ds2) ->
-  clean ds1 -> clean ds2 -> leq m v1 v2.
-Proof.
-  intros Lc Lt Lf Sc St Sf Wc Wt Wf Ot Of Ht Hf E1 E2 K1 K2. unfold cond_tail in E1, E2.
-  destruct (leq_nostar_facts _ _ _ Lc Sc Wc) as (Nc & _ & _). rewrite <- Nc in E2.
-  destruct (is_null cv1); [injection E1 as <- <-; bad K1|].
-  assert (U : forall a b, leq m a b -> is_star m a = false ->
-              snd (unmark a) = snd (unmark b) /\ leq m (fst (unmark a)) (fst (unmark b))).
-  { intros a b L S. destruct (unmark_leq _ _ _ L) as [[A _]|(A & _ & C)]; [|auto].
-    pose proof (marks_of_nostar _ _ S) as X. unfold marks_of in X. congruence. }
-  destruct (U _ _ Lc Sc) as [Mc Xc]. destruct (U _ _ Lt St) as [Mt Xt]. destruct (U _ _ Lf Sf) as [Mf Xf].
-  destruct (wf_unmark _ Wc) as [Nkc _].
-  destruct (unmark cv1) as [cu1 cm1]. destruct (unmark cv2) as [cu2 cm2].
-  destruct (unmark tv1) as [tu1 tm1]. destruct (unmark tv2) as [tu2 tm2].
-  destruct (unmark fv1) as [fu1 fm1]. destruct (unmark fv2) as [fu2 fm2]. cbn [fst snd] in *. subst cm2 tm2 fm2.
-  destruct (leq_known_tru _ _ _ Xc Nkc) as [Kc _]. rewrite <- Kc in E2.
-  destruct (negb (is_known cu1)).
-  { injection E1 as <- _. injection E2 as <- _. rewrite Ot, Of. apply leq_refl. }
-  destruct (conv cu1 TBool) as [b1| |] eqn:C1; try (injection E1 as <- <-; bad K1).
-  destruct (conv cu2 TBool) as [b2| |] eqn:C2; try (injection E2 as <- <-; bad K2).
-  assert (Lb : leq m b1 b2) by (eapply (conv_leq_pd m TBool); [reflexivity|exact Xc|exact C1|exact C2]).
-  leq_heads Lb; try (injection E1 as <- <-; bad K1).
-  injection Lb as ->. destruct b0.
-  - eapply cond_pick_leq; [exact Xt|exact Ht|exact E1|exact E2|exact K1|exact K2].
-  - eapply cond_pick_leq; [exact Xf|exact Hf|exact E1|exact E2|exact K1|exact K2].
-Qed.
-
-Lemma is_dyn_null_leq m a b : leq m a b -> is_dyn_null a = is_dyn_null b.
-Proof. intro H. leq_heads H; try reflexivity. injection H as ->. reflexivity. Qed.
-
-Definition cond_ok_ty (T F : ty) : Prop :=
-  T = TDyn \/ F = TDyn \/
-  match unify T F with
-  | UOk t => pd_ty t = true \/ (ty_eqb T t = true /\ ty_eqb F t = true)
-  | _ => True
-  end.
-
-Lemma cond_uni_safe tv fv rt tc fc :
-  cond_uni tv fv = inl (Some (rt, tc, fc)) -> cond_ok_ty (type_of tv) (type_of fv) ->
-  (tc = true -> pd_ty rt = true \/ prim_head (fst (unmark tv)) = true) /\
-  (fc = true -> pd_ty rt = true \/ prim_head (fst (unmark fv)) = true).
-Proof.
-  unfold cond_uni. intros E Hok.
-  destruct (is_dyn_null tv) eqn:D1.
-  { injection E as <- <- <-. split; [|discriminate]. intros _. right.
-    destruct tv; try discriminate D1. reflexivity. }
-  destruct (is_dyn_null fv) eqn:D2.
-  { injection E as <- <- <-. split; [discriminate|]. intros _. right.
-    destruct fv; try discriminate D2. reflexivity. }
-  destruct (ty_eqb (type_of tv) TDyn || ty_eqb (type_of fv) TDyn) eqn:D3.
-  { injection E as <- <- <-. split; discriminate. }
-  apply orb_false_iff in D3 as [D3 D4].
-  destruct Hok as [H|[H|H]]; [rewrite H in D3; discriminate D3|rewrite H in D4; discriminate D4|].
-  destruct (unify (type_of tv) (type_of fv)) as [t| |]; try discriminate E.
-  injection E as <- <- <-. destruct H as [H|[H1 H2]].
-  - split; intros _; left; exact H.
-  - rewrite H1, H2. split; discriminate.
-Qed.
 
 Section NI.
   Variable m : Z.
@@ -719,7 +32,23 @@ Section NI.
       has_errors ds1 = false -> has_errors ds2 = false ->
       has_unsupported ds1 = false -> has_unsupported ds2 = false ->
       leq m r1 r2.
-  Definition key_ok (key : expr) : Prop := idx_ni \/ exists k, key = ELit k /\ idx_ni_key k.
+  (* the same restricted to collections that are not of object type *)
+  Definition idx_ni_nonobj : Prop :=
+    forall c1 c2 k1 k2 r1 r2 ds1 ds2,
+      leq m c1 c2 -> leq m k1 k2 -> wf c1 -> wf c2 -> wf k1 -> wf k2 ->
+      is_obj (type_of c1) = false -> is_obj (type_of c2) = false ->
+      idx c1 k1 = (r1, ds1) -> idx c2 k2 = (r2, ds2) ->
+      has_errors ds1 = false -> has_errors ds2 = false ->
+      has_unsupported ds1 = false -> has_unsupported ds2 = false ->
+      leq m r1 r2.
+  (* e never evaluates to a value of object type *)
+  Definition nonobj (e : expr) : Prop :=
+    forall fuel c a v ds, Cx c -> wf_opt a -> eval_with idx fuel c a e = (v, ds) ->
+      has_errors ds = false -> is_obj (type_of v) = false.
+  (* an index expression coll[key] is covered if hcl.Index is non-interfering, or the key is a
+     literal, or the collection is never an object (list, tuple, map, dynamic) *)
+  Definition key_ok (coll key : expr) : Prop :=
+    idx_ni \/ (exists k, key = ELit k /\ idx_ni_key k) \/ (idx_ni_nonobj /\ nonobj coll).
 
   (* e never produces an error diagnostic (in contexts of the class) *)
   Definition nofail (e : expr) : Prop :=
@@ -730,17 +59,48 @@ Section NI.
     forall fuel c a v ds, Cx c -> wf_opt a -> eval_with idx fuel c a e = (v, ds) ->
       has_errors ds = false -> type_of v = T.
 
-  (* Side condition of the conditional.  (1) Both result expressions never fail: the diagnostics
-     of the branch that is not selected are DROPPED by ConditionalExpr.Value, so an error that
-     depends on marked data would otherwise go unnoticed together with the marks of that
-     branch (cond_refuted_dropped_diags).  (2) Both have a static type, no set type, and the
-     unified result type needs no structural conversion: the result type is computed from the
-     types of BOTH branches, so the type of a marked value selected by a marked index would
-     otherwise leak into the conversion of the other, unmarked branch (cond_refuted_unify). *)
+  (* the value of e never carries m below its top level *)
+  Definition no_nested (e : expr) : Prop :=
+    forall fuel c a v ds, Cx c -> wf_opt a -> eval_with idx fuel c a e = (v, ds) ->
+      has_errors ds = false -> mark_mem m (deep_marks (fst (unmark v))) = false.
+
+  (* Side condition of the conditional.
+     (1) Both result expressions never fail.  The diagnostics of the branch that is not selected are
+         DROPPED by ConditionalExpr.Value (with an unknown condition those of BOTH branches), and a
+         failing operation returns an unmarked DynamicVal: whether the unselected arm fails may depend
+         on marked data (cond_refuted_dropped_diags; known finding cond-unselected-arm-error-dropped).
+     (2) Either no result carries m below its top level, or both results have static types.  The
+         result type is unified from the types of both branches and is VISIBLE in the result (declared
+         element types); the type of a selected arm such as [t[s]] may depend on marked data
+         (cond_refuted_elem_type).  In the static alternative, "no structural conversion needed"
+         (cond_ok_ty) is a restriction of the PROOF only (conversions are proved to respect
+         low-equivalence for primitive and dynamic targets). *)
+  Definition cond_static (te fe : expr) : Prop :=
+    exists T F, static_ty te T /\ static_ty fe F /\ cond_ok_ty T F.
   Definition cond_side (te fe : expr) : Prop :=
-    nofail te /\ nofail fe /\
-    exists T F, static_ty te T /\ static_ty fe F /\
-      (forall x, T <> TSet x) /\ (forall x, F <> TSet x) /\ cond_ok_ty T F.
+    nofail te /\ nofail fe /\ (cond_static te fe \/ (no_nested te /\ no_nested fe)).
+
+  (* e never evaluates to null *)
+  Definition nonnull (e : expr) : Prop :=
+    forall fuel c a, Cx c -> wf_opt a -> is_null (fst (eval_with idx fuel c a e)) = false.
+
+  (* Side condition of the splat: the source is never a list or a set and never an unknown tuple.
+     (For those sources the TYPE of the result is computed from the types of the results of Each,
+     which the observation relation does not constrain: splat_refuted_elem_type.) *)
+  Definition splat_side (src : expr) : Prop :=
+    forall fuel c a v ds, Cx c -> wf_opt a -> eval_with idx fuel c a src = (v, ds) ->
+      has_errors ds = false -> splat_src_ok v.
+
+  (* e never evaluates to a value that carries m at the top *)
+  Definition nostar (e : expr) : Prop :=
+    forall fuel c a v ds, Cx c -> wf_opt a -> eval_with idx fuel c a e = (v, ds) ->
+      has_errors ds = false -> is_star m v = false.
+  (* Side condition of argument expansion f(a, xs...): the expanded collection xs itself is not
+     marked with m (its elements may be).  With xs marked, the number of arguments depends on
+     hidden data, and a function with AllowMarked parameters need not propagate the marks of the
+     expanded arguments to its result (call_expand_refuted_first). *)
+  Definition expand_side (args : list expr) : Prop :=
+    match rev args with l :: _ => nostar l | [] => True end.
 
   Inductive in_fragment : expr -> Prop :=
   | F_lit v : wf v -> in_fragment (ELit v)
@@ -749,7 +109,7 @@ Section NI.
   | F_anon : in_fragment EAnon
   | F_scope root steps : in_fragment (EScopeTrav root steps)
   | F_rel src steps : in_fragment src -> in_fragment (ERelTrav src steps)
-  | F_index coll key : in_fragment coll -> in_fragment key -> key_ok key -> in_fragment (EIndex coll key)
+  | F_index coll key : in_fragment coll -> in_fragment key -> key_ok coll key -> in_fragment (EIndex coll key)
   | F_tuple es : Forall in_fragment es -> in_fragment (ETuple es)
   | F_objkey w force : in_fragment w -> in_fragment (EObjKey w force)
   | F_un op e : in_fragment e -> in_fragment (EUn op e)
@@ -757,9 +117,16 @@ Section NI.
                    in_fragment (EBin op l r)
   | F_tmpl parts : Forall in_fragment parts -> in_fragment (ETmpl parts)
   | F_join e : in_fragment e -> in_fragment (EJoin e)
-  | F_call name args : Forall in_fragment args -> in_fragment (ECall name args false)
+  | F_call name args expand : Forall in_fragment args -> (expand = true -> expand_side args) ->
+                              in_fragment (ECall name args expand)
   | F_cond ce te fe : in_fragment ce -> in_fragment te -> in_fragment fe -> cond_side te fe ->
                       in_fragment (ECond ce te fe)
+  | F_for kv vv coll key vl cond group :
+      in_fragment coll -> in_fragment vl ->
+      (forall ke, key = Some ke -> in_fragment ke /\ nonnull ke) ->
+      (forall ce, cond = Some ce -> in_fragment ce /\ nonnull ce) ->
+      in_fragment (EFor kv vv coll key vl cond group)
+  | F_splat src each : in_fragment src -> in_fragment each -> splat_side src -> in_fragment (ESplat src each)
   | F_obj items : Forall (fun it => in_fragment (fst it) /\ in_fragment (snd it)) items -> in_fragment (EObj items).
 
   (* all values the evaluator produces are well-formed (discharged in MarksNI_Wf.v) *)
@@ -813,7 +180,7 @@ Section NI.
       eapply IH; eassumption.
     Qed.
 
-    Lemma index_ni coll key : in_fragment coll -> in_fragment key -> key_ok key -> ni_at (S f) (EIndex coll key).
+    Lemma index_ni coll key : in_fragment coll -> in_fragment key -> key_ok coll key -> ni_at (S f) (EIndex coll key).
     Proof.
       intros Fc Fk Hk. start.
       destruct (eval_with idx f c1 a1 coll) as [cv1 cd1] eqn:A1.
@@ -828,7 +195,7 @@ Section NI.
       assert (Wc1 : wf cv1) by (eapply Hwf_eval; [exact C1|exact W1|exact Fc|exact A1]).
       assert (Wc2 : wf cv2) by (eapply Hwf_eval; [exact C2|exact W2|exact Fc|exact A2]).
       destruct K1c as [X1 Y1]. destruct K2c as [X2 Y2].
-      destruct Hk as [Hk|(k & -> & Hk)].
+      destruct Hk as [Hk|[(k & -> & Hk)|[Hk Hno]]].
       - eapply Hk; [exact Lc| |exact Wc1|exact Wc2| | |exact I1|exact I2| | | |]; try assumption.
         + useIH Fk B1 B2 K1b K2b.
         + eapply Hwf_eval; [exact C1|exact W1|exact Fk|exact B1].
@@ -837,6 +204,12 @@ Section NI.
         + injection B1 as <- <-. unclean K1b.
         + injection B1 as <- _. injection B2 as <- _.
           eapply Hk; [exact Lc|exact Wc1|exact Wc2|exact I1|exact I2| | | |]; assumption.
+      - eapply Hk; [exact Lc| |exact Wc1|exact Wc2| | | | |exact I1|exact I2| | | |]; try assumption.
+        + useIH Fk B1 B2 K1b K2b.
+        + eapply Hwf_eval; [exact C1|exact W1|exact Fk|exact B1].
+        + eapply Hwf_eval; [exact C2|exact W2|exact Fk|exact B2].
+        + eapply (Hno f c1 a1); [exact C1|exact W1|exact A1|exact (proj1 K1a)].
+        + eapply (Hno f c2 a2); [exact C2|exact W2|exact A2|exact (proj1 K2a)].
     Qed.
 
     Lemma map_ev_leq es : Forall in_fragment es ->
@@ -1215,34 +588,50 @@ Section NI.
           (apply with_marks_leq; [|apply marks_rel_refl]); [apply leq_refl|apply leq_obj; exact Rv].
     Qed.
 
-    (* ---- function calls (no argument expansion) ---- *)
+    (* ---- function calls ---- *)
+    (* two (possibly different) expressions evaluate to low-equal values *)
+    Definition ni2 (e1 e2 : expr) : Prop :=
+      forall c1 c2 a1 a2 v1 ds1 v2 ds2,
+        low_eq m c1 c2 -> leq_opt m a1 a2 -> funcs_ni m c1 -> Cx c1 -> Cx c2 -> wf_opt a1 -> wf_opt a2 ->
+        eval_with idx f c1 a1 e1 = (v1, ds1) -> eval_with idx f c2 a2 e2 = (v2, ds2) ->
+        clean ds1 -> clean ds2 -> leq m v1 v2.
+
+    Lemma ni2_frag e : in_fragment e -> ni2 e e.
+    Proof. intro Fe. exact (IH e Fe). Qed.
+    Lemma ni2_lit w1 w2 : leq m w1 w2 -> ni2 (ELit w1) (ELit w2).
+    Proof.
+      intros L c1 c2 a1 a2 v1 ds1 v2 ds2 _ _ _ _ _ _ _ E1 E2 K1 _.
+      destruct f as [|f']; cbn [eval_with] in E1, E2; [injection E1 as <- <-; unclean K1|].
+      injection E1 as <- _. injection E2 as <- _. exact L.
+    Qed.
+
     Lemma call_fold_rel fnv c1 c2 a1 a2 :
       params_pd fnv = true ->
       low_eq m c1 c2 -> leq_opt m a1 a2 -> funcs_ni m c1 -> Cx c1 -> Cx c2 -> wf_opt a1 -> wf_opt a2 ->
-      forall l, Forall in_fragment l -> forall i st1 st2,
+      forall l1 l2, Forall2 ni2 l1 l2 -> forall i st1 st2,
       length (fst st1) = i -> Forall2 (leq m) (fst st1) (fst st2) -> args_fit fnv i ->
-      clean (snd (fold_left (call_step (eval_with idx f c1 a1) fnv) (combine (seq i (length l)) l) st1)) ->
-      clean (snd (fold_left (call_step (eval_with idx f c2 a2) fnv) (combine (seq i (length l)) l) st2)) ->
-      Forall2 (leq m) (fst (fold_left (call_step (eval_with idx f c1 a1) fnv) (combine (seq i (length l)) l) st1))
-                      (fst (fold_left (call_step (eval_with idx f c2 a2) fnv) (combine (seq i (length l)) l) st2)) /\
-      args_fit fnv (length (fst (fold_left (call_step (eval_with idx f c1 a1) fnv) (combine (seq i (length l)) l) st1))).
+      clean (snd (fold_left (call_step (eval_with idx f c1 a1) fnv) (combine (seq i (length l1)) l1) st1)) ->
+      clean (snd (fold_left (call_step (eval_with idx f c2 a2) fnv) (combine (seq i (length l2)) l2) st2)) ->
+      Forall2 (leq m) (fst (fold_left (call_step (eval_with idx f c1 a1) fnv) (combine (seq i (length l1)) l1) st1))
+                      (fst (fold_left (call_step (eval_with idx f c2 a2) fnv) (combine (seq i (length l2)) l2) st2)) /\
+      args_fit fnv (length (fst (fold_left (call_step (eval_with idx f c1 a1) fnv) (combine (seq i (length l1)) l1) st1))).
     Proof.
-      intros Hpd HL HA HF C1 C2 W1 W2. induction 1 as [|e r Fe _ IHr]; intros i st1 st2 Hlen Hv Hfit K1 K2;
+      intros Hpd HL HA HF C1 C2 W1 W2. induction 1 as [|e1 e2 r1 r2 Ne _ IHr]; intros i st1 st2 Hlen Hv Hfit K1 K2;
         cbn [length seq combine fold_left] in *.
       - subst i. split; assumption.
-      - assert (K1' : clean (snd (call_step (eval_with idx f c1 a1) fnv st1 (i, e)))).
+      - assert (K1' : clean (snd (call_step (eval_with idx f c1 a1) fnv st1 (i, e1)))).
         { eapply (fold_clean_mono _ snd); [|exact K1]. intros; apply call_step_ds. }
-        assert (K2' : clean (snd (call_step (eval_with idx f c2 a2) fnv st2 (i, e)))).
+        assert (K2' : clean (snd (call_step (eval_with idx f c2 a2) fnv st2 (i, e2)))).
         { eapply (fold_clean_mono _ snd); [|exact K2]. intros; apply call_step_ds. }
-        assert (Ka1 : clean (snd (eval_with idx f c1 a1 e))).
-        { destruct (call_step_ds2 (eval_with idx f c1 a1) fnv st1 (i, e)) as [x Hx]. rewrite Hx in K1'.
+        assert (Ka1 : clean (snd (eval_with idx f c1 a1 e1))).
+        { destruct (call_step_ds2 (eval_with idx f c1 a1) fnv st1 (i, e1)) as [x Hx]. rewrite Hx in K1'.
           apply clean_app in K1' as [K1' _]. apply clean_app in K1' as [_ K1']. exact K1'. }
-        assert (Ka2 : clean (snd (eval_with idx f c2 a2 e))).
-        { destruct (call_step_ds2 (eval_with idx f c2 a2) fnv st2 (i, e)) as [x Hx]. rewrite Hx in K2'.
+        assert (Ka2 : clean (snd (eval_with idx f c2 a2 e2))).
+        { destruct (call_step_ds2 (eval_with idx f c2 a2) fnv st2 (i, e2)) as [x Hx]. rewrite Hx in K2'.
           apply clean_app in K2' as [K2' _]. apply clean_app in K2' as [_ K2']. exact K2'. }
         apply IHr; try assumption; clear IHr K1 K2;
           destruct st1 as [vals1 d1]; destruct st2 as [vals2 d2]; unfold call_step in *; cbn [fst snd] in *;
-          destruct (eval_with idx f c1 a1 e) as [x1 ad1] eqn:A1; destruct (eval_with idx f c2 a2 e) as [x2 ad2] eqn:A2;
+          destruct (eval_with idx f c1 a1 e1) as [x1 ad1] eqn:A1; destruct (eval_with idx f c2 a2 e2) as [x2 ad2] eqn:A2;
           cbn [snd] in Ka1, Ka2;
           (destruct (param_for fnv i) as [p|] eqn:P; [|cbn [snd] in K1'; bad K1']);
           (destruct (conv x1 (p_ty p)) as [y1| |] eqn:Y1; try (cbn [snd] in K1'; bad K1'));
@@ -1250,9 +639,41 @@ Section NI.
         + rewrite app_length. cbn [length]. lia.
         + apply Forall2_app_inv; [exact Hv|].
           eapply conv_leq_pd; [eapply param_for_pd; eassumption| |exact Y1|exact Y2].
-          useIH Fe A1 A2 Ka1 Ka2.
+          eapply Ne; [exact HL|exact HA|exact HF|exact C1|exact C2|exact W1|exact W2|exact A1|exact A2|exact Ka1|exact Ka2].
         + intros j Hj. destruct (Nat.eq_dec j i) as [->|Hne]; [congruence|]. apply Hfit. lia.
     Qed.
+
+    Lemma call_tail_ni name fnv c1 c2 a1 a2 l1 l2 d1 d2 emk v1 ds1 v2 ds2 :
+      fn_ok m fnv -> Forall2 ni2 l1 l2 ->
+      low_eq m c1 c2 -> leq_opt m a1 a2 -> funcs_ni m c1 -> Cx c1 -> Cx c2 -> wf_opt a1 -> wf_opt a2 ->
+      call_tail (eval_with idx f c1 a1) name fnv l1 d1 emk = (v1, ds1) ->
+      call_tail (eval_with idx f c2 a2) name fnv l2 d2 emk = (v2, ds2) ->
+      clean ds1 -> clean ds2 -> leq m v1 v2.
+    Proof.
+      intros (Hni & Hpd & _) Hl HL HA HF C1 C2 W1 W2 E1 E2 K1 K2.
+      pose proof (Forall2_length _ _ _ Hl) as Len.
+      unfold call_tail in E1, E2. rewrite <- Len in E2.
+      destruct (length l1 <? length (f_params fnv))%nat; [injection E1 as <- <-; unclean K1|].
+      destruct (_ && _); [injection E1 as <- <-; unclean K1|].
+      pose proof (call_fold_rel fnv c1 c2 a1 a2 Hpd HL HA HF C1 C2 W1 W2 l1 l2 Hl 0%nat ([], d1) ([], d2)) as R.
+      rewrite <- Len in R.
+      destruct (fold_left (call_step (eval_with idx f c1 a1) fnv) (combine (seq 0 (length l1)) l1) ([], d1)) as [av1 e1].
+      destruct (fold_left (call_step (eval_with idx f c2 a2) fnv) (combine (seq 0 (length l1)) l2) ([], d2)) as [av2 e2].
+      cbn [fst snd] in R.
+      destruct (has_errors e1) eqn:He1; [injection E1 as <- <-; destruct K1; congruence|].
+      destruct (has_unsupported e1) eqn:Hu1; [injection E1 as <- <-; destruct K1; congruence|].
+      destruct (has_errors e2) eqn:He2; [injection E2 as <- <-; destruct K2; congruence|].
+      destruct (has_unsupported e2) eqn:Hu2; [injection E2 as <- <-; destruct K2; congruence|].
+      destruct R as [Rv Rfit]; [reflexivity|constructor|intros j Hj; lia|split; assumption|split; assumption|].
+      destruct (fn_call fnv av1) as [r1| | |] eqn:F1; try (injection E1 as <- <-; bad K1).
+      destruct (fn_call fnv av2) as [r2| | |] eqn:F2; try (injection E2 as <- <-; bad K2).
+      injection E1 as <- _. injection E2 as <- _. apply with_marks_leq; [|apply marks_rel_refl].
+      eapply Hni; eassumption.
+    Qed.
+
+    Lemma Forall2_diag {A} (R : A -> A -> Prop) (P : A -> Prop) l :
+      (forall x, P x -> R x x) -> Forall P l -> Forall2 R l l.
+    Proof. intros H. induction 1; constructor; auto. Qed.
 
     Lemma call_ni name args : Forall in_fragment args -> ni_at (S f) (ECall name args false).
     Proof.
@@ -1261,29 +682,80 @@ Section NI.
       destruct (lookup_fn c1 name false) as [[fnv|] b] eqn:L.
       2:{ destruct b; injection E1 as <- <-; unclean K1. }
       destruct (lookup_fn_in _ _ _ _ _ L) as (fr & fs & I1 & I2 & I3).
-      destruct (HF fr fs name fnv I1 I2 I3) as (Hni & Hpd & _).
-      unfold call_tail in E1, E2.
-      destruct (length args <? length (f_params fnv))%nat; [injection E1 as <- <-; unclean K1|].
-      destruct (_ && _); [injection E1 as <- <-; unclean K1|].
-      pose proof (call_fold_rel fnv c1 c2 a1 a2 Hpd HL HA HF C1 C2 W1 W2 args Fa 0%nat ([], []) ([], [])) as R.
-      destruct (fold_left (call_step (eval_with idx f c1 a1) fnv) (combine (seq 0 (length args)) args) ([], [])) as [av1 d1].
-      destruct (fold_left (call_step (eval_with idx f c2 a2) fnv) (combine (seq 0 (length args)) args) ([], [])) as [av2 d2].
-      cbn [fst snd] in R.
-      destruct (has_errors d1) eqn:He1; [injection E1 as <- <-; destruct K1; congruence|].
-      destruct (has_unsupported d1) eqn:Hu1; [injection E1 as <- <-; destruct K1; congruence|].
-      destruct (has_errors d2) eqn:He2; [injection E2 as <- <-; destruct K2; congruence|].
-      destruct (has_unsupported d2) eqn:Hu2; [injection E2 as <- <-; destruct K2; congruence|].
-      destruct R as [Rv Rfit]; [reflexivity|constructor|intros j Hj; lia|split; assumption|split; assumption|].
-      destruct (fn_call fnv av1) as [r1| | |] eqn:F1; try (injection E1 as <- <-; bad K1).
-      destruct (fn_call fnv av2) as [r2| | |] eqn:F2; try (injection E2 as <- <-; bad K2).
-      injection E1 as <- _. injection E2 as <- _. eapply Hni; eassumption.
+      pose proof (HF fr fs name fnv I1 I2 I3) as Hok.
+      eapply call_tail_ni; [exact Hok| |exact HL|exact HA|exact HF|exact C1|exact C2|exact W1|exact W2|exact E1|exact E2|exact K1|exact K2].
+      eapply Forall2_diag; [apply ni2_frag|exact Fa].
+    Qed.
+
+    Lemma ty_dispatch {A} (t : ty) (x y z : A) :
+      match t with TDyn => x | TTuple _ | TList _ | TSet _ => y | _ => z end
+      = if ty_eqb t TDyn then x else if is_seq_ty t then y else z.
+    Proof. destruct t; reflexivity. Qed.
+
+    Lemma call_x_ni name args : Forall in_fragment args -> expand_side args -> ni_at (S f) (ECall name args true).
+    Proof.
+      intros Fa Hx. intros c1 c2 a1 a2 v1 ds1 v2 ds2 HL HA HF C1 C2 W1 W2 E1 E2 K1 K2.
+      rewrite eval_call_unfold_x in E1, E2. rewrite <- (lookup_fn_low_eq m name c1 c2 false HL) in E2.
+      destruct (lookup_fn c1 name false) as [[fnv|] b] eqn:L.
+      2:{ destruct b; injection E1 as <- <-; unclean K1. }
+      destruct (lookup_fn_in _ _ _ _ _ L) as (fr & fs & I1 & I2 & I3).
+      pose proof (HF fr fs name fnv I1 I2 I3) as Hok.
+      unfold call_expanded in E1, E2. unfold expand_side in Hx.
+      destruct (rev args) as [|last init_rev] eqn:R; [injection E1 as <- <-; unclean K1|].
+      assert (Ea : args = rev init_rev ++ [last]).
+      { rewrite <- (rev_involutive args), R. reflexivity. }
+      assert (Fl : in_fragment last /\ Forall in_fragment (rev init_rev)).
+      { rewrite Ea in Fa. apply Forall_app in Fa as [F1 F2]. inversion F2; subst. split; assumption. }
+      destruct Fl as [Fl Fi].
+      destruct (eval_with idx f c1 a1 last) as [x1 xd1] eqn:A1. destruct (eval_with idx f c2 a2 last) as [x2 xd2] eqn:A2.
+      rewrite !ty_dispatch in E1, E2.
+      assert (Kx1 : clean xd1).
+      { destruct (has_errors xd1); [injection E1 as _ <-; exact K1|].
+        destruct (ty_eqb (type_of x1) TDyn); [destruct (is_null x1); injection E1 as _ <-; [exfalso; bad K1|exact K1]|].
+        destruct (is_seq_ty (type_of x1)); [|injection E1 as _ <-; exfalso; bad K1].
+        destruct (is_null x1); [injection E1 as _ <-; exfalso; bad K1|].
+        destruct (negb (is_known x1)); [injection E1 as _ <-; exact K1|].
+        destruct (unmark x1) as [xu xm]. eapply call_tail_ds0. rewrite E1. exact K1. }
+      assert (Kx2 : clean xd2).
+      { destruct (has_errors xd2); [injection E2 as _ <-; exact K2|].
+        destruct (ty_eqb (type_of x2) TDyn); [destruct (is_null x2); injection E2 as _ <-; [exfalso; bad K2|exact K2]|].
+        destruct (is_seq_ty (type_of x2)); [|injection E2 as _ <-; exfalso; bad K2].
+        destruct (is_null x2); [injection E2 as _ <-; exfalso; bad K2|].
+        destruct (negb (is_known x2)); [injection E2 as _ <-; exact K2|].
+        destruct (unmark x2) as [xu xm]. eapply call_tail_ds0. rewrite E2. exact K2. }
+      assert (Lx : leq m x1 x2) by (useIH Fl A1 A2 Kx1 Kx2).
+      assert (Wx1 : wf x1) by (eapply Hwf_eval; [exact C1|exact W1|exact Fl|exact A1]).
+      assert (Wx2 : wf x2) by (eapply Hwf_eval; [exact C2|exact W2|exact Fl|exact A2]).
+      pose proof (Hx f c1 a1 x1 xd1 C1 W1 A1 (proj1 Kx1)) as Sx.
+      destruct (leq_nostar_facts _ _ _ Lx Sx Wx1) as (Fn & Fk & Ft).
+      pose proof (is_seq_ty_leq _ _ _ Lx Sx Wx1) as Fq.
+      rewrite (proj1 Kx1) in E1. rewrite (proj1 Kx2), <- Fn, <- Fk, <- Ft, <- Fq in E2.
+      destruct (ty_eqb (type_of x1) TDyn).
+      { destruct (is_null x1); [injection E1 as <- <-; bad K1|]. injection E1 as <- _. injection E2 as <- _.
+        apply with_same_marks_leq; [apply leq_refl|exact Lx]. }
+      destruct (is_seq_ty (type_of x1)); [|injection E1 as <- <-; bad K1].
+      destruct (is_null x1); [injection E1 as <- <-; bad K1|].
+      destruct (negb (is_known x1)).
+      { injection E1 as <- _. injection E2 as <- _. apply with_same_marks_leq; [apply leq_refl|exact Lx]. }
+      pose proof (marks_of_eq _ _ _ Lx Sx) as Me. pose proof (unmark_fst_leq _ _ _ Lx Sx) as Lu.
+      destruct (wf_unmark _ Wx1) as [Nu _]. unfold marks_of in Me.
+      destruct (unmark x1) as [xu1 xm1]. destruct (unmark x2) as [xu2 xm2]. cbn [fst snd] in *. subst xm2.
+      pose proof (elements_leq m _ _ Lu Nu) as Le.
+      assert (Em : match elements xu2 with [] => xm1 | _ :: _ => [] end = match elements xu1 with [] => xm1 | _ :: _ => [] end).
+      { destruct Le; reflexivity. }
+      rewrite Em in E2.
+      eapply call_tail_ni; [exact Hok| |exact HL|exact HA|exact HF|exact C1|exact C2|exact W1|exact W2|exact E1|exact E2|exact K1|exact K2].
+      apply Forall2_app.
+      - eapply Forall2_diag; [apply ni2_frag|exact Fi].
+      - clear -Le IH. induction Le as [|p q r s [_ Lv] _ IHl]; cbn [map]; constructor; [|exact IHl].
+        apply ni2_lit. apply with_marks_leq; [exact Lv|apply marks_rel_refl].
     Qed.
 
     (* ---- conditional ---- *)
     Lemma cond_ni ce te fe :
       in_fragment ce -> in_fragment te -> in_fragment fe -> cond_side te fe -> ni_at (S f) (ECond ce te fe).
     Proof.
-      intros Fc Ft Ff (Nt & Nf & T & F & St & Sf & NsT & NsF & Hty).
+      intros Fc Ft Ff (Nt & Nf & Hside).
       intros c1 c2 a1 a2 v1 ds1 v2 ds2 HL HA HF C1 C2 W1 W2 E1 E2 K1 K2.
       rewrite eval_cond_unfold in E1, E2.
       pose proof (Nt f c1 a1 C1 W1) as Et1. pose proof (Nf f c1 a1 C1 W1) as Ef1.
@@ -1298,26 +770,21 @@ Section NI.
       assert (Lf : leq m fv1 fv2) by (useIH Ff B1 B2 (conj Ef1 U1f) (conj Ef2 U2f)).
       assert (Wt : wf tv1) by (eapply Hwf_eval; [exact C1|exact W1|exact Ft|exact A1]).
       assert (Wf : wf fv1) by (eapply Hwf_eval; [exact C1|exact W1|exact Ff|exact B1]).
-      pose proof (St f c1 a1 tv1 td1 C1 W1 A1 Et1) as Tt1. pose proof (St f c2 a2 tv2 td2 C2 W2 A2 Et2) as Tt2.
-      pose proof (Sf f c1 a1 fv1 fd1 C1 W1 B1 Ef1) as Tf1. pose proof (Sf f c2 a2 fv2 fd2 C2 W2 B2 Ef2) as Tf2.
-      assert (Eu : cond_uni tv2 fv2 = cond_uni tv1 fv1).
-      { unfold cond_uni. rewrite <- (is_dyn_null_leq _ _ _ Lt), <- (is_dyn_null_leq _ _ _ Lf), Tt1, Tt2, Tf1, Tf2.
-        reflexivity. }
-      rewrite Eu in E2.
-      destruct (cond_uni tv1 fv1) as [[[[rt tc] fc]|]|[|]] eqn:Un; try (injection E1 as <- <-; unclean K1).
+      destruct (cond_uni tv1 fv1) as [[[[rt1 tc1] fc1]|]|[|]] eqn:Un1; try (injection E1 as <- <-; unclean K1).
+      destruct (cond_uni tv2 fv2) as [[[[rt2 tc2] fc2]|]|[|]] eqn:Un2; try (injection E2 as <- <-; unclean K2).
       destruct (eval_with idx f c1 a1 ce) as [cv1 cd1] eqn:D1. destruct (eval_with idx f c2 a2 ce) as [cv2 cd2] eqn:D2.
       assert (Kc1 : clean cd1).
-      { destruct (cond_tail_ds rt tc fc cv1 cd1 tv1 td1 fv1 fd1) as [x Hx]. rewrite E1 in Hx. cbn [snd] in Hx.
+      { destruct (cond_tail_ds rt1 tc1 fc1 cv1 cd1 tv1 td1 fv1 fd1) as [x Hx]. rewrite E1 in Hx. cbn [snd] in Hx.
         rewrite Hx in K1. apply clean_app in K1 as [K1 _]. exact K1. }
       assert (Kc2 : clean cd2).
-      { destruct (cond_tail_ds rt tc fc cv2 cd2 tv2 td2 fv2 fd2) as [x Hx]. rewrite E2 in Hx. cbn [snd] in Hx.
+      { destruct (cond_tail_ds rt2 tc2 fc2 cv2 cd2 tv2 td2 fv2 fd2) as [x Hx]. rewrite E2 in Hx. cbn [snd] in Hx.
         rewrite Hx in K2. apply clean_app in K2 as [K2 _]. exact K2. }
       assert (Lc : leq m cv1 cv2) by (useIH Fc D1 D2 Kc1 Kc2).
       assert (Wc : wf cv1) by (eapply Hwf_eval; [exact C1|exact W1|exact Fc|exact D1]).
       destruct (is_star m cv1 || is_star m tv1 || is_star m fv1) eqn:Z.
       - (* some operand carries m: so does every clean result *)
-        destruct (cond_tail_marked _ _ _ _ _ _ _ _ _ _ _ E1 K1) as [x1 ->].
-        destruct (cond_tail_marked _ _ _ _ _ _ _ _ _ _ _ E2 K2) as [x2 ->].
+        destruct (cond_tail_marked _ _ _ _ _ _ _ _ _ _ _ E1 K1) as (x1 & ms1 & -> & M1).
+        destruct (cond_tail_marked _ _ _ _ _ _ _ _ _ _ _ E2 K2) as (x2 & ms2 & -> & M2).
         assert (Z2 : is_star m cv2 || is_star m tv2 || is_star m fv2 = true).
         { rewrite <- (leq_is_star _ _ _ Lc), <- (leq_is_star _ _ _ Lt), <- (leq_is_star _ _ _ Lf). exact Z. }
         assert (G : forall a b c0, is_star m a || is_star m b || is_star m c0 = true ->
@@ -1327,21 +794,602 @@ Section NI.
           destruct (is_star m b) eqn:Sb; [rewrite (marks_of_star _ _ Sb); apply orb_true_r|].
           destruct (is_star m c0) eqn:Sc; [rewrite (marks_of_star _ _ Sc); rewrite !orb_true_r; reflexivity|].
           discriminate H. }
-        apply stars_leq; apply with_marks_star; apply G; assumption.
+        apply stars_leq; apply with_marks_star; [apply M1|apply M2]; apply G; assumption.
       - apply orb_false_iff in Z as [Z Z3]. apply orb_false_iff in Z as [Z1 Z2].
-        assert (Hok : cond_ok_ty (type_of tv1) (type_of fv1)) by (rewrite Tt1, Tf1; exact Hty).
-        destruct (cond_uni_safe _ _ _ _ _ Un Hok) as [Ht' Hf'].
-        assert (OB : forall a b, leq m a b -> is_star m a = false -> wf a -> type_of a = type_of b ->
-                      (forall x, type_of a <> TSet x) ->
-                      obs_of (fst (unmark a)) = obs_of (fst (unmark b))).
-        { intros a b L S W Ty Ns. destruct (unmark_leq _ _ _ L) as [[A _]|(_ & _ & C)].
-          - pose proof (marks_of_nostar _ _ S) as X. unfold marks_of in X. congruence.
-          - apply (obs_leq m); [exact C|apply wf_unmark, W|rewrite <- !type_of_unmark; exact Ty|].
-            rewrite <- type_of_unmark. exact Ns. }
-        eapply cond_tail_leq; [exact Lc|exact Lt|exact Lf|exact Z1|exact Z2|exact Z3|exact Wc|exact Wt|exact Wf
-                              | | |exact Ht'|exact Hf'|exact E1|exact E2|exact K1|exact K2].
-        + apply OB; try assumption; [congruence|rewrite Tt1; exact NsT].
-        + apply OB; try assumption; [congruence|rewrite Tf1; exact NsF].
+        (* what the side condition (2) provides *)
+        assert (Side : cond_uni tv2 fv2 = cond_uni tv1 fv1 /\
+                       (tc1 = true -> pd_ty rt1 = true \/ prim_head (fst (unmark tv1)) = true \/ fst (unmark tv1) = fst (unmark tv2)) /\
+                       (fc1 = true -> pd_ty rt1 = true \/ prim_head (fst (unmark fv1)) = true \/ fst (unmark fv1) = fst (unmark fv2))).
+        { destruct Hside as [(T & F & St & Sf & Hty)|[Pt Pf]].
+          - pose proof (St f c1 a1 tv1 td1 C1 W1 A1 Et1) as Tt1. pose proof (St f c2 a2 tv2 td2 C2 W2 A2 Et2) as Tt2.
+            pose proof (Sf f c1 a1 fv1 fd1 C1 W1 B1 Ef1) as Tf1. pose proof (Sf f c2 a2 fv2 fd2 C2 W2 B2 Ef2) as Tf2.
+            assert (Hok : cond_ok_ty (type_of tv1) (type_of fv1)) by (rewrite Tt1, Tf1; exact Hty).
+            destruct (cond_uni_safe _ _ _ _ _ Un1 Hok) as [Ht' Hf'].
+            split; [|split].
+            + unfold cond_uni. rewrite <- (is_dyn_null_leq _ _ _ Lt), <- (is_dyn_null_leq _ _ _ Lf), Tt1, Tt2, Tf1, Tf2.
+              reflexivity.
+            + intro H. destruct (Ht' H) as [X|X]; auto.
+            + intro H. destruct (Hf' H) as [X|X]; auto.
+          - pose proof (Pt f c1 a1 tv1 td1 C1 W1 A1 Et1) as Pt1. pose proof (Pf f c1 a1 fv1 fd1 C1 W1 B1 Ef1) as Pf1.
+            pose proof (leq_deep_eq m _ _ (unmark_fst_leq _ _ _ Lt Z2) Pt1) as Eu.
+            pose proof (leq_deep_eq m _ _ (unmark_fst_leq _ _ _ Lf Z3) Pf1) as Ev.
+            assert (Et : tv1 = tv2).
+            { pose proof (marks_of_eq _ _ _ Lt Z2) as Me. unfold marks_of in Me. clear -Lt Eu Me.
+              leq_heads Lt; cbn [unmark fst snd] in *; congruence. }
+            assert (Ef : fv1 = fv2).
+            { pose proof (marks_of_eq _ _ _ Lf Z3) as Me. unfold marks_of in Me. clear -Lf Ev Me.
+              leq_heads Lf; cbn [unmark fst snd] in *; congruence. }
+            subst tv2 fv2. split; [reflexivity|]. split; intros _; right; right; reflexivity. }
+        destruct Side as (Eu & Ht' & Hf').
+        rewrite Eu, Un1 in Un2. injection Un2 as <- <- <-.
+        eapply cond_tail_leq; [exact Lc|exact Lt|exact Lf|exact Z1|exact Z2|exact Z3|exact Wc
+                              |exact Ht'|exact Hf'|exact E1|exact E2|exact K1|exact K2].
+    Qed.
+
+    (* ---- for expressions: tuple result ---- *)
+    Lemma vfalse_match {A} (x y : A) v :
+      match v with VBool false => x | _ => y end = if is_vfalse v then x else y.
+    Proof. destruct v; try reflexivity. destruct b; reflexivity. Qed.
+
+    Definition forl_rel (s1 s2 : forl_state) : Prop :=
+      (existsb (mark_mem m) (forl_mks s1) = true /\ existsb (mark_mem m) (forl_mks s2) = true) \/
+      (let '(v1, mk1, k1, _) := s1 in let '(v2, mk2, k2, _) := s2 in
+       Forall2 (leq m) v1 v2 /\ mk1 = mk2 /\ k1 = k2 /\ existsb (mark_mem m) mk1 = false).
+
+    Lemma child_ok c1 c2 kvar vvar kv1 kv2 :
+      low_eq m c1 c2 -> funcs_ni m c1 -> Cx c1 -> Cx c2 ->
+      leq_pair m kv1 kv2 -> wf_pair kv1 -> wf_pair kv2 ->
+      low_eq m (for_bind c1 kvar vvar (fst kv1) (snd kv1)) (for_bind c2 kvar vvar (fst kv2) (snd kv2)) /\
+      funcs_ni m (for_bind c1 kvar vvar (fst kv1) (snd kv1)) /\
+      Cx (for_bind c1 kvar vvar (fst kv1) (snd kv1)) /\ Cx (for_bind c2 kvar vvar (fst kv2) (snd kv2)).
+    Proof.
+      intros HL HF C1 C2 [Lk Lv] [Wk1 Wv1] [Wk2 Wv2]. split; [|split; [|split]].
+      - apply for_bind_low_eq; assumption.
+      - apply for_bind_funcs; assumption.
+      - apply Cx_child; [exact C1|apply for_bind_vars_wf; assumption].
+      - apply Cx_child; [exact C2|apply for_bind_vars_wf; assumption].
+    Qed.
+
+    Lemma forl_step_rel c1 c2 a1 a2 kvar vvar conde vale st1 st2 kv1 kv2 :
+      in_fragment vale -> (forall ce, conde = Some ce -> in_fragment ce /\ nonnull ce) ->
+      low_eq m c1 c2 -> leq_opt m a1 a2 -> funcs_ni m c1 -> Cx c1 -> Cx c2 -> wf_opt a1 -> wf_opt a2 ->
+      leq_pair m kv1 kv2 -> wf_pair kv1 -> wf_pair kv2 ->
+      forl_rel st1 st2 ->
+      clean (snd (forl_step (fun cc e => eval_with idx f cc a1 e) c1 kvar vvar conde vale st1 kv1)) ->
+      clean (snd (forl_step (fun cc e => eval_with idx f cc a2 e) c2 kvar vvar conde vale st2 kv2)) ->
+      forl_rel (forl_step (fun cc e => eval_with idx f cc a1 e) c1 kvar vvar conde vale st1 kv1)
+               (forl_step (fun cc e => eval_with idx f cc a2 e) c2 kvar vvar conde vale st2 kv2).
+    Proof.
+      intros Fv Hc HL0 HA HF0 C10 C20 W1 W2 Lkv Wkv1 Wkv2 [[T1 T2]|R] K1 K2.
+      { left. split; apply forl_step_taint; assumption. }
+      destruct (child_ok c1 c2 kvar vvar kv1 kv2 HL0 HF0 C10 C20 Lkv Wkv1 Wkv2) as (HL & HF & C1 & C2).
+      destruct st1 as [[[vals1 mks1] kn1] d1]. destruct st2 as [[[vals2 mks2] kn2] d2].
+      destruct R as (Rv & -> & -> & Tn).
+      destruct conde as [ce|].
+      - destruct (Hc ce eq_refl) as [Fce Nn].
+        pose proof (Nn f _ a1 C1 W1) as N1. pose proof (Nn f _ a2 C2 W2) as N2.
+        assert (Kc1 : clean (snd (eval_with idx f (for_bind c1 kvar vvar (fst kv1) (snd kv1)) a1 ce))).
+        { destruct (forl_step_ds2 (fun cc e => eval_with idx f cc a1 e) c1 kvar vvar ce vale (vals1, mks2, kn2, d1) kv1) as [x Hx].
+          rewrite Hx in K1. apply clean_app in K1 as [K1 _]. apply clean_app in K1 as [_ K1]. exact K1. }
+        assert (Kc2 : clean (snd (eval_with idx f (for_bind c2 kvar vvar (fst kv2) (snd kv2)) a2 ce))).
+        { destruct (forl_step_ds2 (fun cc e => eval_with idx f cc a2 e) c2 kvar vvar ce vale (vals2, mks2, kn2, d2) kv2) as [x Hx].
+          rewrite Hx in K2. apply clean_app in K2 as [K2 _]. apply clean_app in K2 as [_ K2]. exact K2. }
+        unfold forl_step in *. cbv beta in *.
+        destruct (eval_with idx f (for_bind c1 kvar vvar (fst kv1) (snd kv1)) a1 ce) as [inc1 cd1] eqn:A1.
+        destruct (eval_with idx f (for_bind c2 kvar vvar (fst kv2) (snd kv2)) a2 ce) as [inc2 cd2] eqn:A2.
+        cbn [fst snd] in N1, N2, Kc1, Kc2. rewrite N1 in *. rewrite N2 in *.
+        assert (Li : leq m inc1 inc2) by (useIH Fce A1 A2 Kc1 Kc2).
+        assert (Wi : wf inc1) by (eapply Hwf_eval; [exact C1|exact W1|exact Fce|exact A1]).
+        destruct (is_star m inc1) eqn:Si.
+        + (* the condition carries m *)
+          assert (Si2 : is_star m inc2 = true) by (rewrite <- (leq_is_star _ _ _ Li); exact Si).
+          left. unfold forl_mks. split.
+          * destruct (negb (is_known inc1)); [|destruct (conv inc1 TBool) as [b| |]; [rewrite vfalse_match; destruct (is_vfalse _);
+              [|destruct (eval_with idx f _ a1 vale)]| |]]; cbn [fst snd]; rewrite existsb_app; cbn [existsb];
+              rewrite (marks_of_star _ _ Si), ?orb_true_r; reflexivity.
+          * destruct (negb (is_known inc2)); [|destruct (conv inc2 TBool) as [b| |]; [rewrite vfalse_match; destruct (is_vfalse _);
+              [|destruct (eval_with idx f _ a2 vale)]| |]]; cbn [fst snd]; rewrite existsb_app; cbn [existsb];
+              rewrite (marks_of_star _ _ Si2), ?orb_true_r; reflexivity.
+        + destruct (leq_nostar_facts _ _ _ Li Si Wi) as (_ & Fk & _).
+          rewrite <- (marks_of_eq _ _ _ Li Si), <- Fk in *.
+          assert (Tn' : existsb (mark_mem m) (mks2 ++ [marks_of inc1]) = false).
+          { rewrite existsb_app, Tn. cbn [existsb]. rewrite (marks_of_nostar _ _ Si). reflexivity. }
+          destruct (negb (is_known inc1)); [right; repeat split; auto|].
+          destruct (conv_pd_cases m TBool inc1 inc2 eq_refl Li Si Wi) as [(b1 & b2 & E1 & E2 & Lb)|[E Hn]].
+          * rewrite E1, E2 in *. rewrite !vfalse_match in *.
+            assert (Sb : is_star m b1 = false) by (rewrite (conv_pd_is_star m TBool inc1 b1 eq_refl Wi E1); exact Si).
+            assert (Wb : wf b1) by (eapply (conv_wf_pd TBool); [reflexivity|exact Wi|exact E1]).
+            rewrite <- (is_vfalse_leq m _ _ (unmark_fst_leq _ _ _ Lb Sb) (proj1 (wf_unmark _ Wb))) in *.
+            destruct (is_vfalse (fst (unmark b1))); [right; repeat split; auto|].
+            destruct (eval_with idx f (for_bind c1 kvar vvar (fst kv1) (snd kv1)) a1 vale) as [x1 vd1] eqn:B1.
+            destruct (eval_with idx f (for_bind c2 kvar vvar (fst kv2) (snd kv2)) a2 vale) as [x2 vd2] eqn:B2.
+            cbn [snd] in K1, K2. apply clean_app in K1 as [_ Kv1]. apply clean_app in K2 as [_ Kv2].
+            right. repeat split; auto. apply Forall2_app_inv; [exact Rv|]. useIH Fv B1 B2 Kv1 Kv2.
+          * rewrite <- E in *. destruct (conv inc1 TBool) as [b| |] eqn:Q; [exfalso; eapply Hn; reflexivity| |].
+            -- destruct kn2; [cbn [snd] in K1; bad K1|]. right. repeat split; auto.
+            -- cbn [snd] in K1. bad K1.
+      - unfold forl_step in *. cbv beta in *.
+        destruct (eval_with idx f (for_bind c1 kvar vvar (fst kv1) (snd kv1)) a1 vale) as [x1 vd1] eqn:B1.
+        destruct (eval_with idx f (for_bind c2 kvar vvar (fst kv2) (snd kv2)) a2 vale) as [x2 vd2] eqn:B2.
+        cbn [snd] in K1, K2. apply clean_app in K1 as [_ Kv1]. apply clean_app in K2 as [_ Kv2].
+        right. repeat split; auto. apply Forall2_app_inv; [exact Rv|]. useIH Fv B1 B2 Kv1 Kv2.
+    Qed.
+
+    (* ---- for expressions: object result ---- *)
+    Definition tnt (mks : list marks) : bool := existsb (mark_mem m) mks.
+
+    Definition co_rel (o1 o2 : (list marks * list diag) + (list marks * bool * list diag)) : Prop :=
+      match o1, o2 with
+      | inl (mk1, _), inl (mk2, _) => (tnt mk1 = true /\ tnt mk2 = true) \/ (mk1 = mk2 /\ tnt mk1 = false)
+      | inr (mk1, k1, _), inr (mk2, k2, _) =>
+          (tnt mk1 = true /\ tnt mk2 = true) \/ (mk1 = mk2 /\ k1 = k2 /\ tnt mk1 = false)
+      | inl (mk1, _), inr (mk2, _, _) | inr (mk1, _, _), inl (mk2, _) => tnt mk1 = true /\ tnt mk2 = true
+      end.
+
+    Lemma foro_cond_rel cc1 cc2 a1 a2 conde mks known d1 d2 :
+      (forall ce, conde = Some ce -> in_fragment ce /\ nonnull ce) ->
+      low_eq m cc1 cc2 -> leq_opt m a1 a2 -> funcs_ni m cc1 -> Cx cc1 -> Cx cc2 -> wf_opt a1 -> wf_opt a2 ->
+      tnt mks = false ->
+      (forall ce, conde = Some ce -> clean (snd (eval_with idx f cc1 a1 ce)) /\ clean (snd (eval_with idx f cc2 a2 ce))) ->
+      (match foro_cond (fun cc e => eval_with idx f cc a1 e) cc1 conde mks known d1 with
+       | inl (_, ds) => clean ds | inr (_, _, ds) => clean ds end) ->
+      (match foro_cond (fun cc e => eval_with idx f cc a2 e) cc2 conde mks known d2 with
+       | inl (_, ds) => clean ds | inr (_, _, ds) => clean ds end) ->
+      co_rel (foro_cond (fun cc e => eval_with idx f cc a1 e) cc1 conde mks known d1)
+             (foro_cond (fun cc e => eval_with idx f cc a2 e) cc2 conde mks known d2).
+    Proof.
+      intros Hc HL HA HF C1 C2 W1 W2 Tn Kc K1 K2. unfold foro_cond in *.
+      destruct conde as [ce|]; [|right; auto].
+      destruct (Hc ce eq_refl) as [Fce Nn]. destruct (Kc ce eq_refl) as [Kc1 Kc2].
+      pose proof (Nn f cc1 a1 C1 W1) as N1. pose proof (Nn f cc2 a2 C2 W2) as N2.
+      destruct (eval_with idx f cc1 a1 ce) as [inc1 cd1] eqn:A1. destruct (eval_with idx f cc2 a2 ce) as [inc2 cd2] eqn:A2.
+      cbn [fst snd] in *. rewrite N1 in *. rewrite N2 in *.
+      assert (Li : leq m inc1 inc2) by (useIH Fce A1 A2 Kc1 Kc2).
+      assert (Wi : wf inc1) by (eapply Hwf_eval; [exact C1|exact W1|exact Fce|exact A1]).
+      destruct (is_star m inc1) eqn:Si.
+      - assert (Si2 : is_star m inc2 = true) by (rewrite <- (leq_is_star _ _ _ Li); exact Si).
+        assert (T1 : forall x, tnt ((mks ++ [marks_of inc1]) ++ x) = true).
+        { intro x. unfold tnt. rewrite !existsb_app. cbn [existsb]. rewrite (marks_of_star _ _ Si), !orb_true_r. reflexivity. }
+        assert (T2 : forall x, tnt ((mks ++ [marks_of inc2]) ++ x) = true).
+        { intro x. unfold tnt. rewrite !existsb_app. cbn [existsb]. rewrite (marks_of_star _ _ Si2), !orb_true_r. reflexivity. }
+        pose proof (T1 []) as T1'. pose proof (T2 []) as T2'. rewrite app_nil_r in T1', T2'.
+        destruct (conv inc1 TBool) as [b1| |]; [destruct (negb (is_known b1)); [|rewrite vfalse_match; destruct (is_vfalse _)]| |];
+          (destruct (conv inc2 TBool) as [b2| |]; [destruct (negb (is_known b2)); [|rewrite vfalse_match; destruct (is_vfalse _)]| |]);
+          cbn [co_rel]; try (left; split; auto; fail); split; auto.
+      - rewrite <- (marks_of_eq _ _ _ Li Si) in *.
+        assert (Tn' : tnt (mks ++ [marks_of inc1]) = false).
+        { unfold tnt in *. rewrite existsb_app, Tn. cbn [existsb]. rewrite (marks_of_nostar _ _ Si). reflexivity. }
+        assert (Tn'' : tnt ((mks ++ [marks_of inc1]) ++ [marks_of inc1]) = false).
+        { unfold tnt in *. rewrite existsb_app, Tn'. cbn [existsb]. rewrite (marks_of_nostar _ _ Si). reflexivity. }
+        destruct (conv_pd_cases m TBool inc1 inc2 eq_refl Li Si Wi) as [(b1 & b2 & E1 & E2 & Lb)|[E Hn]].
+        + rewrite E1, E2 in *. rewrite !vfalse_match in *.
+          assert (Sb : is_star m b1 = false) by (rewrite (conv_pd_is_star m TBool inc1 b1 eq_refl Wi E1); exact Si).
+          assert (Wb : wf b1) by (eapply (conv_wf_pd TBool); [reflexivity|exact Wi|exact E1]).
+          destruct (leq_nostar_facts _ _ _ Lb Sb Wb) as (_ & Fk & _). rewrite <- Fk in *.
+          rewrite <- (is_vfalse_leq m _ _ (unmark_fst_leq _ _ _ Lb Sb) (proj1 (wf_unmark _ Wb))) in *.
+          destruct (negb (is_known b1)); [right; auto|].
+          destruct (is_vfalse (fst (unmark b1))); right; auto.
+        + rewrite <- E in *. destruct (conv inc1 TBool) as [b| |] eqn:Q; [exfalso; eapply Hn; reflexivity| |].
+          * destruct known; [bad K1|]. right; auto.
+          * bad K1.
+    Qed.
+
+    Definition grp_rel := Forall2 (rel_kv (Forall2 (leq m))).
+    Definition foro_rel (s1 s2 : foro_state) : Prop :=
+      (tnt (foro_mks s1) = true /\ tnt (foro_mks s2) = true) \/
+      (let '(v1, g1, mk1, k1, _) := s1 in let '(v2, g2, mk2, k2, _) := s2 in
+       Forall2 (leq_kv m) v1 v2 /\ grp_rel g1 g2 /\ mk1 = mk2 /\ k1 = k2 /\ tnt mk1 = false).
+
+    Lemma foro_body_rel cc1 cc2 a1 a2 ke vale group vals1 vals2 g1 g2 known mks d1 d2 :
+      in_fragment ke -> nonnull ke -> in_fragment vale ->
+      low_eq m cc1 cc2 -> leq_opt m a1 a2 -> funcs_ni m cc1 -> Cx cc1 -> Cx cc2 -> wf_opt a1 -> wf_opt a2 ->
+      Forall2 (leq_kv m) vals1 vals2 -> grp_rel g1 g2 -> tnt mks = false ->
+      clean (snd (foro_body (fun cc e => eval_with idx f cc a1 e) cc1 ke vale group vals1 g1 known mks d1)) ->
+      clean (snd (foro_body (fun cc e => eval_with idx f cc a2 e) cc2 ke vale group vals2 g2 known mks d2)) ->
+      foro_rel (foro_body (fun cc e => eval_with idx f cc a1 e) cc1 ke vale group vals1 g1 known mks d1)
+               (foro_body (fun cc e => eval_with idx f cc a2 e) cc2 ke vale group vals2 g2 known mks d2).
+    Proof.
+      intros Fk Nn Fv HL HA HF C1 C2 W1 W2 Rv Rg Tn K1 K2.
+      assert (Kk1 : clean (snd (eval_with idx f cc1 a1 ke))).
+      { destruct (foro_body_shape (fun cc e => eval_with idx f cc a1 e) cc1 ke vale group vals1 g1 known mks d1) as (_ & [dx Hx]).
+        rewrite Hx in K1. apply clean_app in K1 as [_ K1]. apply clean_app in K1 as [K1 _]. exact K1. }
+      assert (Kk2 : clean (snd (eval_with idx f cc2 a2 ke))).
+      { destruct (foro_body_shape (fun cc e => eval_with idx f cc a2 e) cc2 ke vale group vals2 g2 known mks d2) as (_ & [dx Hx]).
+        rewrite Hx in K2. apply clean_app in K2 as [_ K2]. apply clean_app in K2 as [K2 _]. exact K2. }
+      pose proof (Nn f cc1 a1 C1 W1) as N1. pose proof (Nn f cc2 a2 C2 W2) as N2.
+      unfold foro_body in *. cbv beta in *.
+      destruct (eval_with idx f cc1 a1 ke) as [kr1 kd1] eqn:A1. destruct (eval_with idx f cc2 a2 ke) as [kr2 kd2] eqn:A2.
+      cbn [fst snd] in N1, N2, Kk1, Kk2. rewrite N1 in *. rewrite N2 in *.
+      assert (Lk : leq m kr1 kr2) by (useIH Fk A1 A2 Kk1 Kk2).
+      assert (Wk : wf kr1) by (eapply Hwf_eval; [exact C1|exact W1|exact Fk|exact A1]).
+      destruct (is_star m kr1) eqn:Sk.
+      - assert (Sk2 : is_star m kr2 = true) by (rewrite <- (leq_is_star _ _ _ Lk); exact Sk).
+        left. unfold foro_mks, tnt. split.
+        + destruct (negb (is_known kr1)); [|destruct (conv kr1 TStr) as [kc| |];
+            [destruct (fst (unmark kc)); try (destruct (eval_with idx f cc1 a1 vale); destruct group; [|destruct (assoc_get _ vals1)])| |]];
+            cbn [fst snd]; rewrite existsb_app; cbn [existsb]; rewrite (marks_of_star _ _ Sk), ?orb_true_r; reflexivity.
+        + destruct (negb (is_known kr2)); [|destruct (conv kr2 TStr) as [kc| |];
+            [destruct (fst (unmark kc)); try (destruct (eval_with idx f cc2 a2 vale); destruct group; [|destruct (assoc_get _ vals2)])| |]];
+            cbn [fst snd]; rewrite existsb_app; cbn [existsb]; rewrite (marks_of_star _ _ Sk2), ?orb_true_r; reflexivity.
+      - destruct (leq_nostar_facts _ _ _ Lk Sk Wk) as (_ & Fkn & _).
+        rewrite <- (marks_of_eq _ _ _ Lk Sk), <- Fkn in *.
+        assert (Tn' : tnt (mks ++ [marks_of kr1]) = false).
+        { unfold tnt in *. rewrite existsb_app, Tn. cbn [existsb]. rewrite (marks_of_nostar _ _ Sk). reflexivity. }
+        destruct (negb (is_known kr1)); [right; repeat split; auto|].
+        destruct (conv_pd_cases m TStr kr1 kr2 eq_refl Lk Sk Wk) as [(kc1 & kc2 & E1 & E2 & Lc)|[E Hn]].
+        + rewrite E1, E2 in *.
+          assert (Sc : is_star m kc1 = false) by (rewrite (conv_pd_is_star m TStr kr1 kc1 eq_refl Wk E1); exact Sk).
+          assert (Wc : wf kc1) by (eapply (conv_wf_pd TStr); [reflexivity|exact Wk|exact E1]).
+          pose proof (unmark_fst_leq _ _ _ Lc Sc) as Lu. destruct (wf_unmark _ Wc) as [Nu _].
+          revert Lu Nu K1 K2. generalize (fst (unmark kc1)) (fst (unmark kc2)). intros u1 u2 Lu Nu K1 K2.
+          leq_heads Lu; try discriminate Nu; try (cbn [snd] in K1; bad K1).
+          injection Lu as ->.
+          destruct (eval_with idx f cc1 a1 vale) as [x1 vd1] eqn:B1. destruct (eval_with idx f cc2 a2 vale) as [x2 vd2] eqn:B2.
+          assert (Kv : clean vd1 /\ clean vd2).
+          { destruct group; [|destruct (assoc_get s0 vals1); destruct (assoc_get s0 vals2)]; cbn [snd] in K1, K2;
+              repeat (apply clean_app in K1; destruct K1 as [K1 ?]); repeat (apply clean_app in K2; destruct K2 as [K2 ?]);
+              split; assumption. }
+          destruct Kv as [Kv1 Kv2].
+          assert (Lx : leq m x1 x2) by (useIH Fv B1 B2 Kv1 Kv2).
+          destruct group.
+          * right. repeat split; auto. apply assoc_set_rel; [exact Rg|].
+            pose proof (assoc_get_rel (Forall2 (leq m)) s0 _ _ Rg) as G.
+            destruct (assoc_get s0 g1), (assoc_get s0 g2); try contradiction;
+              apply Forall2_app_inv; try assumption; constructor.
+          * pose proof (assoc_get_leq m s0 _ _ Rv) as G.
+            destruct (assoc_get s0 vals1), (assoc_get s0 vals2); try contradiction.
+            -- cbn [snd] in K1. bad K1.
+            -- right. repeat split; auto. apply assoc_set_leq; assumption.
+        + rewrite <- E in *. destruct (conv kr1 TStr) as [b| |] eqn:Q; [exfalso; eapply Hn; reflexivity| |].
+          * destruct known; [cbn [snd] in K1; bad K1|]. right. repeat split; auto.
+          * cbn [snd] in K1. bad K1.
+    Qed.
+
+    Lemma foro_step_rel c1 c2 a1 a2 kvar vvar conde ke vale group st1 st2 kv1 kv2 :
+      in_fragment vale -> in_fragment ke -> nonnull ke ->
+      (forall ce, conde = Some ce -> in_fragment ce /\ nonnull ce) ->
+      low_eq m c1 c2 -> leq_opt m a1 a2 -> funcs_ni m c1 -> Cx c1 -> Cx c2 -> wf_opt a1 -> wf_opt a2 ->
+      leq_pair m kv1 kv2 -> wf_pair kv1 -> wf_pair kv2 ->
+      foro_rel st1 st2 ->
+      clean (snd (foro_step (fun cc e => eval_with idx f cc a1 e) c1 kvar vvar conde ke vale group st1 kv1)) ->
+      clean (snd (foro_step (fun cc e => eval_with idx f cc a2 e) c2 kvar vvar conde ke vale group st2 kv2)) ->
+      foro_rel (foro_step (fun cc e => eval_with idx f cc a1 e) c1 kvar vvar conde ke vale group st1 kv1)
+               (foro_step (fun cc e => eval_with idx f cc a2 e) c2 kvar vvar conde ke vale group st2 kv2).
+    Proof.
+      intros Fv Fk Nk Hc HL0 HA HF0 C10 C20 W1 W2 Lkv Wkv1 Wkv2 [[T1 T2]|R] K1 K2.
+      { left. split; apply foro_step_taint; assumption. }
+      destruct (child_ok c1 c2 kvar vvar kv1 kv2 HL0 HF0 C10 C20 Lkv Wkv1 Wkv2) as (HL & HF & C1 & C2).
+      rewrite !foro_step_eq in *.
+      destruct st1 as [[[[vals1 g1] mks1] kn1] d1]. destruct st2 as [[[[vals2 g2] mks2] kn2] d2].
+      destruct R as (Rv & Rg & -> & -> & Tn). cbv zeta in *.
+      set (cc1 := for_bind c1 kvar vvar (fst kv1) (snd kv1)) in *.
+      set (cc2 := for_bind c2 kvar vvar (fst kv2) (snd kv2)) in *.
+      pose proof (foro_cond_shape (fun cc e => eval_with idx f cc a1 e) cc1 conde mks2 kn2 d1) as Sh1.
+      pose proof (foro_cond_shape (fun cc e => eval_with idx f cc a2 e) cc2 conde mks2 kn2 d2) as Sh2.
+      assert (Kc : forall ce, conde = Some ce ->
+                 clean (snd (eval_with idx f cc1 a1 ce)) /\ clean (snd (eval_with idx f cc2 a2 ce))).
+      { intros ce ->.
+        destruct (foro_cond_ds2 (fun cc e => eval_with idx f cc a1 e) cc1 ce mks2 kn2 d1) as [x1 Hx1].
+        destruct (foro_cond_ds2 (fun cc e => eval_with idx f cc a2 e) cc2 ce mks2 kn2 d2) as [x2 Hx2].
+        split.
+        - destruct (foro_cond _ cc1 (Some ce) mks2 kn2 d1) as [[mk ds]|[[mk kn] ds]]; subst ds.
+          + destruct (foro_body_shape (fun cc e => eval_with idx f cc a1 e) cc1 ke vale group vals1 g1 kn2 mk
+                        ((d1 ++ snd (eval_with idx f cc1 a1 ce)) ++ x1)) as (_ & [dx Hd]).
+            rewrite Hd in K1. apply clean_app in K1 as [K1 _]. apply clean_app in K1 as [K1 _].
+            apply clean_app in K1 as [_ K1]. exact K1.
+          + cbn [snd] in K1. apply clean_app in K1 as [K1 _]. apply clean_app in K1 as [_ K1]. exact K1.
+        - destruct (foro_cond _ cc2 (Some ce) mks2 kn2 d2) as [[mk ds]|[[mk kn] ds]]; subst ds.
+          + destruct (foro_body_shape (fun cc e => eval_with idx f cc a2 e) cc2 ke vale group vals2 g2 kn2 mk
+                        ((d2 ++ snd (eval_with idx f cc2 a2 ce)) ++ x2)) as (_ & [dx Hd]).
+            rewrite Hd in K2. apply clean_app in K2 as [K2 _]. apply clean_app in K2 as [K2 _].
+            apply clean_app in K2 as [_ K2]. exact K2.
+          + cbn [snd] in K2. apply clean_app in K2 as [K2 _]. apply clean_app in K2 as [_ K2]. exact K2. }
+      assert (Kd1 : match foro_cond (fun cc e => eval_with idx f cc a1 e) cc1 conde mks2 kn2 d1 with
+                    | inl (_, ds) => clean ds | inr (_, _, ds) => clean ds end).
+      { destruct (foro_cond _ cc1 conde mks2 kn2 d1) as [[mk ds]|[[mk kn] ds]]; [|exact K1].
+        destruct (foro_body_shape (fun cc e => eval_with idx f cc a1 e) cc1 ke vale group vals1 g1 kn2 mk ds) as (_ & [dx Hd]).
+        rewrite Hd in K1. apply clean_app in K1 as [K1 _]. exact K1. }
+      assert (Kd2 : match foro_cond (fun cc e => eval_with idx f cc a2 e) cc2 conde mks2 kn2 d2 with
+                    | inl (_, ds) => clean ds | inr (_, _, ds) => clean ds end).
+      { destruct (foro_cond _ cc2 conde mks2 kn2 d2) as [[mk ds]|[[mk kn] ds]]; [|exact K2].
+        destruct (foro_body_shape (fun cc e => eval_with idx f cc a2 e) cc2 ke vale group vals2 g2 kn2 mk ds) as (_ & [dx Hd]).
+        rewrite Hd in K2. apply clean_app in K2 as [K2 _]. exact K2. }
+      pose proof (foro_cond_rel cc1 cc2 a1 a2 conde mks2 kn2 d1 d2 Hc HL HA HF C1 C2 W1 W2 Tn Kc Kd1 Kd2) as CR.
+      destruct (foro_cond _ cc1 conde mks2 kn2 d1) as [[mk1 ds1]|[[mk1 k1] ds1]];
+        destruct (foro_cond _ cc2 conde mks2 kn2 d2) as [[mk2 ds2]|[[mk2 k2] ds2]]; cbn [co_rel] in CR.
+      - destruct CR as [[T1 T2]|[-> Tn']].
+        + left. split.
+          * destruct (foro_body_shape (fun cc e => eval_with idx f cc a1 e) cc1 ke vale group vals1 g1 kn2 mk1 ds1) as ([mx ->] & _).
+            unfold tnt in *. rewrite existsb_app, T1. reflexivity.
+          * destruct (foro_body_shape (fun cc e => eval_with idx f cc a2 e) cc2 ke vale group vals2 g2 kn2 mk2 ds2) as ([mx ->] & _).
+            unfold tnt in *. rewrite existsb_app, T2. reflexivity.
+        + apply foro_body_rel; assumption.
+      - destruct CR as [T1 T2]. left. split; [|exact T2].
+        destruct (foro_body_shape (fun cc e => eval_with idx f cc a1 e) cc1 ke vale group vals1 g1 kn2 mk1 ds1) as ([mx ->] & _).
+        unfold tnt in *. rewrite existsb_app, T1. reflexivity.
+      - destruct CR as [T1 T2]. left. split; [exact T1|].
+        destruct (foro_body_shape (fun cc e => eval_with idx f cc a2 e) cc2 ke vale group vals2 g2 kn2 mk2 ds2) as ([mx ->] & _).
+        unfold tnt in *. rewrite existsb_app, T2. reflexivity.
+      - destruct CR as [[T1 T2]|(-> & -> & Tn')]; [left; split; assumption|right; repeat split; auto].
+    Qed.
+
+    (* folds *)
+    Lemma forl_fold_rel c1 c2 a1 a2 kvar vvar conde vale :
+      in_fragment vale -> (forall ce, conde = Some ce -> in_fragment ce /\ nonnull ce) ->
+      low_eq m c1 c2 -> leq_opt m a1 a2 -> funcs_ni m c1 -> Cx c1 -> Cx c2 -> wf_opt a1 -> wf_opt a2 ->
+      forall l1 l2, Forall2 (leq_pair m) l1 l2 -> Forall wf_pair l1 -> Forall wf_pair l2 ->
+      forall st1 st2, forl_rel st1 st2 ->
+      clean (snd (fold_left (forl_step (fun cc e => eval_with idx f cc a1 e) c1 kvar vvar conde vale) l1 st1)) ->
+      clean (snd (fold_left (forl_step (fun cc e => eval_with idx f cc a2 e) c2 kvar vvar conde vale) l2 st2)) ->
+      forl_rel (fold_left (forl_step (fun cc e => eval_with idx f cc a1 e) c1 kvar vvar conde vale) l1 st1)
+               (fold_left (forl_step (fun cc e => eval_with idx f cc a2 e) c2 kvar vvar conde vale) l2 st2).
+    Proof.
+      intros Fv Hc HL HA HF C1 C2 W1 W2. induction 1 as [|p q r s Lp _ IHr]; intros Wl1 Wl2 st1 st2 R K1 K2;
+        cbn [fold_left] in *; [exact R|].
+      inversion Wl1 as [|? ? Wp Wr]; subst. inversion Wl2 as [|? ? Wq Ws]; subst.
+      apply IHr; try assumption. apply forl_step_rel; try assumption.
+      - eapply (fold_clean_mono _ snd); [|exact K1]. intros; apply forl_step_ds.
+      - eapply (fold_clean_mono _ snd); [|exact K2]. intros; apply forl_step_ds.
+    Qed.
+
+    Lemma foro_fold_rel c1 c2 a1 a2 kvar vvar conde ke vale group :
+      in_fragment vale -> in_fragment ke -> nonnull ke ->
+      (forall ce, conde = Some ce -> in_fragment ce /\ nonnull ce) ->
+      low_eq m c1 c2 -> leq_opt m a1 a2 -> funcs_ni m c1 -> Cx c1 -> Cx c2 -> wf_opt a1 -> wf_opt a2 ->
+      forall l1 l2, Forall2 (leq_pair m) l1 l2 -> Forall wf_pair l1 -> Forall wf_pair l2 ->
+      forall st1 st2, foro_rel st1 st2 ->
+      clean (snd (fold_left (foro_step (fun cc e => eval_with idx f cc a1 e) c1 kvar vvar conde ke vale group) l1 st1)) ->
+      clean (snd (fold_left (foro_step (fun cc e => eval_with idx f cc a2 e) c2 kvar vvar conde ke vale group) l2 st2)) ->
+      foro_rel (fold_left (foro_step (fun cc e => eval_with idx f cc a1 e) c1 kvar vvar conde ke vale group) l1 st1)
+               (fold_left (foro_step (fun cc e => eval_with idx f cc a2 e) c2 kvar vvar conde ke vale group) l2 st2).
+    Proof.
+      intros Fv Fk Nk Hc HL HA HF C1 C2 W1 W2. induction 1 as [|p q r s Lp _ IHr]; intros Wl1 Wl2 st1 st2 R K1 K2;
+        cbn [fold_left] in *; [exact R|].
+      inversion Wl1 as [|? ? Wp Wr]; subst. inversion Wl2 as [|? ? Wq Ws]; subst.
+      apply IHr; try assumption. apply foro_step_rel; try assumption.
+      - eapply (fold_clean_mono _ snd); [|exact K1]. intros; apply foro_step_ds.
+      - eapply (fold_clean_mono _ snd); [|exact K2]. intros; apply foro_step_ds.
+    Qed.
+
+    (* unary: a tainted start stays tainted *)
+    Lemma forl_fold_taint ev c kvar vvar conde vale l : forall st,
+      tnt (forl_mks st) = true -> tnt (forl_mks (fold_left (forl_step ev c kvar vvar conde vale) l st)) = true.
+    Proof. induction l; intros st H; cbn [fold_left]; [exact H|]. apply IHl, forl_step_taint, H. Qed.
+    Lemma foro_fold_taint ev c kvar vvar conde ke vale group l : forall st,
+      tnt (foro_mks st) = true -> tnt (foro_mks (fold_left (foro_step ev c kvar vvar conde ke vale group) l st)) = true.
+    Proof. induction l; intros st H; cbn [fold_left]; [exact H|]. apply IHl, foro_step_taint, H. Qed.
+
+    Lemma can_iterate_leq a b : leq m a b -> is_mark a = false -> can_iterate a = can_iterate b.
+    Proof. intros H N. leq_heads H; try discriminate N; try (injection H; intros; subst); reflexivity. Qed.
+
+    (* a collection that carries m: every clean result carries m *)
+    Lemma for_tail_star ev c kvar vvar keye vale conde group cv0 ds0 v ds :
+      is_star m cv0 = true ->
+      for_tail ev c kvar vvar keye vale conde group cv0 ds0 = (v, ds) -> clean ds -> is_star m v = true.
+    Proof.
+      intros Sc E K. unfold for_tail in E.
+      destruct (is_null cv0); [injection E as <- <-; bad K|].
+      destruct (ty_eqb (type_of cv0) TDyn); [injection E as <- _; apply with_marks_star, marks_of_star, Sc|].
+      pose proof (marks_of_star _ _ Sc) as Mc. unfold marks_of in Mc.
+      destruct (unmark cv0) as [cv cmk]. cbn [snd] in Mc.
+      destruct (negb (can_iterate cv)); [injection E as <- <-; bad K|].
+      pose proof (for_probe_shape ev c kvar vvar conde ds0) as P.
+      destruct (for_probe ev c kvar vvar conde ds0) as [[condmk ds1]|[r dr]].
+      2:{ injection E as <- <-. contradiction. }
+      destruct (negb (is_known cv)).
+      { injection E as <- _. apply with_marks_star. rewrite mark_mem_union, Mc. reflexivity. }
+      destruct keye as [ke|].
+      - pose proof (foro_fold_taint ev c kvar vvar conde ke vale group (elements cv) ([], [], [cmk], true, ds1)) as T.
+        destruct (fold_left _ (elements cv) _) as [[[[vals groups] mks] known] dd]. cbn [for_fin_o] in E.
+        unfold foro_mks, tnt in T. cbn [fst snd existsb] in T. rewrite Mc in T. specialize (T eq_refl).
+        destruct (negb known); injection E as <- _; apply with_marks_star; rewrite mark_mem_unions; exact T.
+      - pose proof (forl_fold_taint ev c kvar vvar conde vale (elements cv) ([], [cmk], true, ds1)) as T.
+        destruct (fold_left _ (elements cv) _) as [[[vals mks] known] dd]. cbn [for_fin_l] in E.
+        unfold forl_mks, tnt in T. cbn [fst snd existsb] in T. rewrite Mc in T. specialize (T eq_refl).
+        destruct (negb known); injection E as <- _; apply with_marks_star; rewrite mark_mem_unions; exact T.
+    Qed.
+
+    Lemma for_ni kvar vvar coll keye vale conde group :
+      in_fragment coll -> in_fragment vale ->
+      (forall ke, keye = Some ke -> in_fragment ke /\ nonnull ke) ->
+      (forall ce, conde = Some ce -> in_fragment ce /\ nonnull ce) ->
+      ni_at (S f) (EFor kvar vvar coll keye vale conde group).
+    Proof.
+      intros Fc Fv Hk Hc. intros c1 c2 a1 a2 v1 ds1 v2 ds2 HL HA HF C1 C2 W1 W2 E1 E2 K1 K2.
+      rewrite eval_for_unfold' in E1, E2.
+      destruct (eval_with idx f c1 a1 coll) as [cv01 d01] eqn:A1. destruct (eval_with idx f c2 a2 coll) as [cv02 d02] eqn:A2.
+      assert (K01 : clean d01) by (eapply for_tail_ds; rewrite E1; exact K1).
+      assert (K02 : clean d02) by (eapply for_tail_ds; rewrite E2; exact K2).
+      assert (Lc : leq m cv01 cv02) by (useIH Fc A1 A2 K01 K02).
+      assert (Wc1 : wf cv01) by (eapply Hwf_eval; [exact C1|exact W1|exact Fc|exact A1]).
+      assert (Wc2 : wf cv02) by (eapply Hwf_eval; [exact C2|exact W2|exact Fc|exact A2]).
+      destruct (is_star m cv01) eqn:Sc.
+      { apply stars_leq; [eapply for_tail_star; [exact Sc|exact E1|exact K1]|].
+        eapply for_tail_star; [|exact E2|exact K2]. rewrite <- (leq_is_star _ _ _ Lc). exact Sc. }
+      destruct (leq_nostar_facts _ _ _ Lc Sc Wc1) as (Fn & _ & Ft).
+      unfold for_tail in E1, E2. rewrite <- Fn, <- Ft in E2.
+      destruct (is_null cv01); [injection E1 as <- <-; bad K1|].
+      destruct (ty_eqb (type_of cv01) TDyn).
+      { injection E1 as <- _. injection E2 as <- _. apply with_same_marks_leq; [apply leq_refl|exact Lc]. }
+      pose proof (marks_of_eq _ _ _ Lc Sc) as Mc. pose proof (unmark_fst_leq _ _ _ Lc Sc) as Lu.
+      pose proof (marks_of_nostar _ _ Sc) as Mn. unfold marks_of in Mc, Mn.
+      destruct (wf_unmark _ Wc1) as [Nu Wu1]. destruct (wf_unmark _ Wc2) as [_ Wu2].
+      destruct (unmark cv01) as [cv1 cmk1]. destruct (unmark cv02) as [cv2 cmk2]. cbn [fst snd] in *. subst cmk2.
+      rewrite <- (can_iterate_leq _ _ Lu Nu) in E2.
+      destruct (negb (can_iterate cv1)); [injection E1 as <- <-; bad K1|].
+      (* the probe *)
+      pose proof (for_probe_shape (fun cc e => eval_with idx f cc a1 e) c1 kvar vvar conde d01) as P1.
+      pose proof (for_probe_shape (fun cc e => eval_with idx f cc a2 e) c2 kvar vvar conde d02) as P2.
+      destruct (for_probe _ c1 kvar vvar conde d01) as [[cm1 dp1]|[r1 dr1]] eqn:Pr1.
+      2:{ injection E1 as <- <-. contradiction. }
+      destruct (for_probe _ c2 kvar vvar conde d02) as [[cm2 dp2]|[r2 dr2]] eqn:Pr2.
+      2:{ injection E2 as <- <-. contradiction. }
+      destruct (leq_known_tru _ _ _ Lu Nu) as [Fk _]. rewrite <- Fk in E2.
+      destruct (negb (is_known cv1)) eqn:Kn.
+      { (* unknown collection *)
+        injection E1 as <- <-. injection E2 as <- <-.
+        apply with_marks_leq'; [|intros; apply leq_refl].
+        apply marks_rel_union; [apply marks_rel_refl|].
+        unfold for_probe in Pr1, Pr2. destruct conde as [ce|].
+        - destruct (Hc ce eq_refl) as [Fce _].
+          destruct (child_ok c1 c2 kvar vvar (dyn_val, dyn_val) (dyn_val, dyn_val) HL HF C1 C2) as (HL' & HF' & C1' & C2');
+            try (split; reflexivity).
+          cbn [fst snd] in HL', HF', C1', C2'.
+          destruct (eval_with idx f (for_bind c1 kvar vvar dyn_val dyn_val) a1 ce) as [q1 qd1] eqn:Q1.
+          destruct (eval_with idx f (for_bind c2 kvar vvar dyn_val dyn_val) a2 ce) as [q2 qd2] eqn:Q2.
+          cbn [snd] in P1, P2. subst dp1 dp2.
+          apply clean_app in K1 as [_ Kq1]. apply clean_app in K2 as [_ Kq2].
+          destruct (is_null q1); [discriminate Pr1|]. destruct (is_null q2); [discriminate Pr2|].
+          destruct (conv q1 TBool); try discriminate Pr1. destruct (conv q2 TBool); try discriminate Pr2.
+          destruct (has_errors qd1); [discriminate Pr1|]. destruct (has_errors qd2); [discriminate Pr2|].
+          injection Pr1 as <-. injection Pr2 as <-. apply marks_of_leq.
+          eapply (IH _ Fce); [exact HL'|exact HA|exact HF'|exact C1'|exact C2'|exact W1|exact W2|exact Q1|exact Q2|exact Kq1|exact Kq2].
+        - injection Pr1 as <- _. injection Pr2 as <- _. apply marks_rel_refl. }
+      pose proof (elements_leq m _ _ Lu Nu) as Le.
+      pose proof (elements_wf _ Wu1) as We1. pose proof (elements_wf _ Wu2) as We2.
+      assert (Tc : tnt [cmk1] = false) by (unfold tnt; cbn [existsb]; rewrite Mn; reflexivity).
+      destruct keye as [ke|].
+      - destruct (Hk ke eq_refl) as [Fke Nke].
+        pose proof (foro_fold_rel c1 c2 a1 a2 kvar vvar conde ke vale group Fv Fke Nke Hc HL HA HF C1 C2 W1 W2
+                      _ _ Le We1 We2 ([], [], [cmk1], true, dp1) ([], [], [cmk1], true, dp2)) as R.
+        rewrite <- (for_fin_o_ds group) in R. rewrite <- (for_fin_o_ds group (fold_left _ (elements cv2) _)) in R.
+        rewrite E1, E2 in R. cbn [snd] in R.
+        destruct R as [[T1 T2]|R]; [right; repeat split; auto; constructor|exact K1|exact K2| |].
+        + destruct (fold_left _ (elements cv1) _) as [[[[vs1 g1] mk1] kn1] dd1].
+          destruct (fold_left _ (elements cv2) _) as [[[[vs2 g2] mk2] kn2] dd2].
+          unfold foro_mks in T1, T2. cbn [fst snd for_fin_o] in *.
+          apply stars_leq.
+          * destruct (negb kn1); injection E1 as <- _; apply with_marks_star; rewrite mark_mem_unions; exact T1.
+          * destruct (negb kn2); injection E2 as <- _; apply with_marks_star; rewrite mark_mem_unions; exact T2.
+        + destruct (fold_left _ (elements cv1) _) as [[[[vs1 g1] mk1] kn1] dd1].
+          destruct (fold_left _ (elements cv2) _) as [[[[vs2 g2] mk2] kn2] dd2].
+          destruct R as (Rv & Rg & -> & -> & _). cbn [for_fin_o] in E1, E2.
+          destruct (negb kn2); injection E1 as <- _; injection E2 as <- _;
+            (apply with_marks_leq; [|apply marks_rel_refl]); [apply leq_refl|].
+          apply leq_obj. destruct group; [|exact Rv].
+          clear -Rg. induction Rg as [|p q r s [A B] _ IHr]; cbn [map]; constructor; [|exact IHr].
+          split; cbn [fst snd]; [exact A|apply leq_tuple; exact B].
+      - pose proof (forl_fold_rel c1 c2 a1 a2 kvar vvar conde vale Fv Hc HL HA HF C1 C2 W1 W2
+                      _ _ Le We1 We2 ([], [cmk1], true, dp1) ([], [cmk1], true, dp2)) as R.
+        rewrite <- for_fin_l_ds in R. rewrite <- (for_fin_l_ds (fold_left _ (elements cv2) _)) in R.
+        rewrite E1, E2 in R. cbn [snd] in R.
+        destruct R as [[T1 T2]|R]; [right; repeat split; auto|exact K1|exact K2| |].
+        + destruct (fold_left _ (elements cv1) _) as [[[vs1 mk1] kn1] dd1].
+          destruct (fold_left _ (elements cv2) _) as [[[vs2 mk2] kn2] dd2].
+          unfold forl_mks in T1, T2. cbn [fst snd for_fin_l] in *.
+          apply stars_leq.
+          * destruct (negb kn1); injection E1 as <- _; apply with_marks_star; rewrite mark_mem_unions; exact T1.
+          * destruct (negb kn2); injection E2 as <- _; apply with_marks_star; rewrite mark_mem_unions; exact T2.
+        + destruct (fold_left _ (elements cv1) _) as [[[vs1 mk1] kn1] dd1].
+          destruct (fold_left _ (elements cv2) _) as [[[vs2 mk2] kn2] dd2].
+          destruct R as (Rv & -> & -> & _). cbn [for_fin_l] in E1, E2.
+          destruct (negb kn2); injection E1 as <- _; injection E2 as <- _;
+            (apply with_marks_leq; [|apply marks_rel_refl]); [apply leq_refl|apply leq_tuple; exact Rv].
+    Qed.
+
+    (* ---- splat ---- *)
+    Lemma map_ev_anon_leq each c1 c2 :
+      in_fragment each -> low_eq m c1 c2 -> funcs_ni m c1 -> Cx c1 -> Cx c2 ->
+      forall l1 l2, Forall2 (leq_pair m) l1 l2 -> Forall wf_pair l1 -> Forall wf_pair l2 ->
+      clean (concat (map snd (map (fun kv => eval_with idx f c1 (Some (snd kv)) each) l1))) ->
+      clean (concat (map snd (map (fun kv => eval_with idx f c2 (Some (snd kv)) each) l2))) ->
+      Forall2 (leq m) (map fst (map (fun kv => eval_with idx f c1 (Some (snd kv)) each) l1))
+                      (map fst (map (fun kv => eval_with idx f c2 (Some (snd kv)) each) l2)).
+    Proof.
+      intros Fe HL HF C1 C2. induction 1 as [|p q r s [_ Lv] _ IHr]; intros W1 W2 K1 K2; cbn [map concat] in *.
+      - constructor.
+      - inversion W1 as [|? ? [_ Wp] Wr]; subst. inversion W2 as [|? ? [_ Wq] Ws]; subst.
+        apply clean_app in K1 as [K1a K1b]. apply clean_app in K2 as [K2a K2b].
+        constructor; [|apply IHr; assumption].
+        destruct (eval_with idx f c1 (Some (snd p)) each) as [x1 d1] eqn:A1.
+        destruct (eval_with idx f c2 (Some (snd q)) each) as [x2 d2] eqn:A2. cbn [fst snd] in *.
+        eapply (IH _ Fe c1 c2 (Some (snd p)) (Some (snd q)));
+          [exact HL|exact Lv|exact HF|exact C1|exact C2|exact Wp|exact Wq|exact A1|exact A2|exact K1a|exact K2a].
+    Qed.
+
+    Lemma splat_ni src each :
+      in_fragment src -> in_fragment each -> splat_side src -> ni_at (S f) (ESplat src each).
+    Proof.
+      intros Fs Fe Hside. intros c1 c2 a1 a2 v1 ds1 v2 ds2 HL HA HF C1 C2 W1 W2 E1 E2 K1 K2.
+      rewrite eval_splat_unfold in E1, E2.
+      destruct (eval_with idx f c1 a1 src) as [s1 d1] eqn:A1. destruct (eval_with idx f c2 a2 src) as [s2 d2] eqn:A2.
+      assert (K01 : clean d1) by (eapply splat_tail_ds; rewrite E1; exact K1).
+      assert (K02 : clean d2) by (eapply splat_tail_ds; rewrite E2; exact K2).
+      assert (Ls : leq m s1 s2) by (useIH Fs A1 A2 K01 K02).
+      assert (Ws1 : wf s1) by (eapply Hwf_eval; [exact C1|exact W1|exact Fs|exact A1]).
+      assert (Ws2 : wf s2) by (eapply Hwf_eval; [exact C2|exact W2|exact Fs|exact A2]).
+      destruct (is_star m s1) eqn:Sc.
+      { apply stars_leq; [eapply splat_tail_star; [exact Sc|exact E1|exact K1]|].
+        eapply splat_tail_star; [|exact E2|exact K2]. rewrite <- (leq_is_star _ _ _ Ls). exact Sc. }
+      assert (Sc2 : is_star m s2 = false) by (rewrite <- (leq_is_star _ _ _ Ls); exact Sc).
+      destruct (leq_nostar_facts _ _ _ Ls Sc Ws1) as (Fn & Fk & Ft).
+      pose proof (is_seq_ty_leq _ _ _ Ls Sc Ws1) as Fq. pose proof (splat_upg_leq _ _ _ Ls Sc Ws1) as Fu.
+      pose proof (Hside f c1 a1 s1 d1 C1 W1 A1 (proj1 K01)) as Ok1.
+      pose proof (Hside f c2 a2 s2 d2 C2 W2 A2 (proj1 K02)) as Ok2.
+      destruct (is_null s1) eqn:N1.
+      { assert (N2' : is_null s2 = true) by (symmetry; exact Fn).
+        unfold splat_tail in E1, E2. rewrite (proj1 K01), N1 in E1. rewrite (proj1 K02), N2', <- Fq in E2.
+        destruct (negb (is_seq_ty (type_of s1))); injection E1 as <- <-; [|bad K1]. injection E2 as <- _.
+        apply with_same_marks_leq; [apply leq_refl|exact Ls]. }
+      destruct (ty_eqb (type_of s1) TDyn) eqn:D1.
+      { assert (N2' : is_null s2 = false) by (symmetry; exact Fn).
+        assert (D2' : ty_eqb (type_of s2) TDyn = true) by (symmetry; exact Ft).
+        unfold splat_tail in E1, E2. rewrite (proj1 K01), N1, D1 in E1. rewrite (proj1 K02), N2', D2' in E2.
+        injection E1 as <- _. injection E2 as <- _. apply with_same_marks_leq; [apply leq_refl|exact Ls]. }
+      (* the known, non-list path *)
+      assert (NF : forall s0 d0 v d (ev : ctx -> option val -> val * list diag) c,
+                 wf s0 -> splat_src_ok s0 -> has_errors d0 = false -> is_null s0 = false -> ty_eqb (type_of s0) TDyn = false ->
+                 splat_tail ev c s0 d0 = (v, d) -> clean d ->
+                 exists su sm,
+                   (if negb (is_seq_ty (type_of s0)) then su = VTuple [s0] else su = fst (unmark s0)) /\
+                   sm = marks_of s0 /\
+                   d = d0 ++ concat (map snd (map (fun kv => ev c (Some (snd kv))) (elements su))) /\
+                   match (if negb (is_seq_ty (type_of s0)) && negb (is_known s0) then splat_upg s0 else Some false) with
+                   | Some true => v = with_marks dyn_val sm
+                   | Some false => v = with_marks (VTuple (map fst (map (fun kv => ev c (Some (snd kv))) (elements su)))) sm
+                   | None => False
+                   end).
+      { intros s0 d0 v d ev c Ws Ok He Hn Hd E K.
+        destruct (negb (is_seq_ty (type_of s0))) eqn:Au.
+        - exists (VTuple [s0]), (marks_of s0). split; [reflexivity|]. split; [reflexivity|].
+          pose proof (splat_tail_nf ev c s0 d0 (with_same_marks (VTuple [s0]) s0) (VTuple [s0]) (marks_of s0) v d He Hn Hd) as X.
+          rewrite Au in X. apply X; try assumption.
+          + reflexivity.
+          + rewrite is_known_hd. unfold with_same_marks. rewrite unmark_with_marks by reflexivity. reflexivity.
+          + unfold with_same_marks. apply unmark_with_marks. reflexivity.
+          + intros t. unfold with_same_marks. rewrite type_of_with_marks. discriminate.
+          + intros t. unfold with_same_marks. rewrite type_of_with_marks. discriminate.
+        - exists (fst (unmark s0)), (marks_of s0). split; [reflexivity|]. split; [reflexivity|].
+          apply negb_false_iff in Au. unfold splat_src_ok in Ok.
+          pose proof (splat_tail_nf ev c s0 d0 s0 (fst (unmark s0)) (marks_of s0) v d He Hn Hd) as X.
+          rewrite Au in X. cbn [negb andb] in X |- *. apply X; try assumption.
+          + reflexivity.
+          + destruct (type_of s0); try discriminate Au; try contradiction. exact Ok.
+          + unfold marks_of. destruct (unmark s0); reflexivity.
+          + intros t T. rewrite T in Ok. exact Ok.
+          + intros t T. rewrite T in Ok. exact Ok. }
+      assert (N2 : is_null s2 = false) by (symmetry; exact Fn).
+      assert (D2 : ty_eqb (type_of s2) TDyn = false) by (symmetry; exact Ft).
+      destruct (NF s1 d1 v1 ds1 _ c1 Ws1 Ok1 (proj1 K01) N1 D1 E1 K1) as (su1 & sm1 & Hu1 & -> & -> & R1).
+      destruct (NF s2 d2 v2 ds2 _ c2 Ws2 Ok2 (proj1 K02) N2 D2 E2 K2) as (su2 & sm2 & Hu2 & -> & -> & R2).
+      rewrite <- Fq, <- Fk, <- Fu in R2. rewrite <- Fq in Hu2.
+      assert (Lsu : leq m su1 su2 /\ is_mark su1 = false /\ wf su1 /\ wf su2).
+      { destruct (negb (is_seq_ty (type_of s1))); subst su1 su2.
+        - split; [apply leq_tuple; constructor; [exact Ls|constructor]|]. split; [reflexivity|].
+          unfold wf in *. cbn [wfb forallb]. rewrite Ws1, Ws2. auto.
+        - split; [apply unmark_fst_leq; assumption|]. split; [apply wf_unmark, Ws1|].
+          split; [apply wf_unmark, Ws1|apply wf_unmark, Ws2]. }
+      destruct Lsu as (Lsu & Nsu & Wsu1 & Wsu2).
+      rewrite <- (marks_of_eq _ _ _ Ls Sc) in R2.
+      destruct (if negb (is_seq_ty (type_of s1)) && negb (is_known s1) then splat_upg s1 else Some false) as [[|]|];
+        try contradiction; subst v1 v2.
+      - apply leq_refl.
+      - apply with_marks_leq; [|apply marks_rel_refl]. apply leq_tuple.
+        apply clean_app in K1 as [_ K1]. apply clean_app in K2 as [_ K2].
+        apply map_ev_anon_leq; try assumption.
+        + apply elements_leq; assumption.
+        + apply elements_wf; assumption.
+        + apply elements_wf; assumption.
     Qed.
   End Step.
 
@@ -1364,8 +1412,10 @@ Section NI.
       + apply (bin_ni f IH); assumption.
       + apply (tmpl_ni f IH); assumption.
       + apply (join_ni f IH); assumption.
-      + apply (call_ni f IH); assumption.
+      + destruct expand; [apply (call_x_ni f IH); auto|apply (call_ni f IH); assumption].
       + apply (cond_ni f IH); assumption.
+      + apply (for_ni f IH); assumption.
+      + apply (splat_ni f IH); assumption.
       + apply (objcons_ni f IH); assumption.
   Qed.
 End NI.
